@@ -1,7 +1,8 @@
 /-
   Property C03 — a saved package is a conforming ODF zip container with a truthful manifest.
-  Theorems about `OdfModel.Pkg.save` (model of `__zipwrite`, `_saveXmlObjects`, `_savePictures`) and
+  Theorems about `OdfModel.Pkg.save` (model of `__zipwrite`, `_saveXmlObjects`, `_savePictures`, `_allExtras`) and
   `OdfModel.Pkg.load`; tied to odf/opendocument.py by the correspondence run of harness/c03.py.
+  Code as of fix 0372084: every sub-document is stored under its `folder` attribute.
 
   Main theorems (all for object trees of any nesting depth, by mutual induction over Doc / List Doc):
     mimetype_first              first entry = ("mimetype", stored, no extra, utf8 of the media type)
@@ -9,18 +10,17 @@
     manifest_exact_ordered      member names = mimetype :: (paths of the manifest's file entries, same order) ++ [manifest]
     manifest_exact              … hence a permutation of the names minus mimetype and the manifest (multiset)
     folder_entries              which entries are folder entries: "/", every object folder, "Thumbnails/", None-extras
-    folder_iff_slash  [DocOK, plainHrefs]   … and these are exactly the manifest paths ending in "/"
     root_and_object_mediatypes  "/" carries the document's media type, every object folder its object's
     parts_present               every object's styles/content/(settings).xml under its folder, holding its own part
     pictures_present            every registered picture under folder ++ href, stored, its bytes, its media type
+    extras_present              every extra of every object under folder ++ name, its bytes, its media type
     thumbnail_present           the thumbnail member with its bytes, listed with the media type the document carries for it
+    manifest_nodup    [DocOK]   no manifest path twice (exactly one root entry)
     names_nodup       [DocOK]   no member name twice
-    manifest_nodup    [DocOK, plainHrefs]   no manifest path twice (exactly one root entry)
+    folder_iff_slash  [DocOK, plainHrefs]   the folder entries are exactly the manifest paths ending in "/"
     register_nodup              the registry is a dict: hrefs pairwise distinct by construction
-    load_docOK                  every document built by `load` (any package) satisfies DocOK (full strength since fix 87ffca7)
-    loaded_names_nodup          … hence no member name twice after load + save
-    loaded_manifest_nodup_partial [NoPictureDirs]  no manifest path twice / folder entries = paths ending in "/" after load + save
-    root_entry_once_after_load, reserved_name_once_after_load   the former findings KF-C03-1/2, now proved absent
+    load_docOK                  every document built by `load`, from ANY package (nested objects, any numbering/order), satisfies DocOK
+    loaded_saves_clean          … hence no member name and no manifest path twice after load + save
 -/
 import OdfModel.Pkg
 namespace OdfModel.Props.C03
@@ -35,23 +35,30 @@ def fileEntries (o : Out) : List ME := o.man.filter (fun e => !e.isFolder)
 /-- the manifest entries that describe a folder, in order -/
 def folderEntries (o : Out) : List ME := o.man.filter (fun e => e.isFolder)
 def filePaths (o : Out) : List Str := (fileEntries o).map (·.path)
+/-- all manifest paths, in order -/
+def paths (o : Out) : List Str := o.man.map (·.path)
 
 @[simp] theorem names_append (a b : Out) : names (a ++ b) = names a ++ names b := by simp [names]
 @[simp] theorem filePaths_append (a b : Out) : filePaths (a ++ b) = filePaths a ++ filePaths b := by
   simp [filePaths, fileEntries]
 @[simp] theorem folderEntries_append (a b : Out) :
     folderEntries (a ++ b) = folderEntries a ++ folderEntries b := by simp [folderEntries]
+@[simp] theorem paths_append (a b : Out) : paths (a ++ b) = paths a ++ paths b := by simp [paths]
 @[simp] theorem names_empty : names Out.empty = [] := rfl
 @[simp] theorem filePaths_empty : filePaths Out.empty = [] := rfl
 @[simp] theorem folderEntries_empty : folderEntries Out.empty = [] := rfl
+@[simp] theorem paths_empty : paths Out.empty = [] := rfl
 @[simp] theorem names_emFile (n : Str) (m : Method) (c : Content) (t : Str) : names (emFile n m c t) = [n] := rfl
 @[simp] theorem filePaths_emFile (n : Str) (m : Method) (c : Content) (t : Str) :
     filePaths (emFile n m c t) = [n] := rfl
+@[simp] theorem paths_emFile (n : Str) (m : Method) (c : Content) (t : Str) : paths (emFile n m c t) = [n] := rfl
 @[simp] theorem folderEntries_emFile (n : Str) (m : Method) (c : Content) (t : Str) :
     folderEntries (emFile n m c t) = [] := rfl
 @[simp] theorem names_emM (e : ME) : names (emM e) = [] := rfl
+@[simp] theorem paths_emM (e : ME) : paths (emM e) = [e.path] := rfl
 @[simp] theorem names_emZ (e : ZE) : names (emZ e) = [e.name] := rfl
 @[simp] theorem filePaths_emZ (e : ZE) : filePaths (emZ e) = [] := rfl
+@[simp] theorem paths_emZ (e : ZE) : paths (emZ e) = [] := rfl
 @[simp] theorem folderEntries_emZ (e : ZE) : folderEntries (emZ e) = [] := rfl
 @[simp] theorem filePaths_emM_folder (p t : Str) : filePaths (emM ⟨p, t, true⟩) = [] := rfl
 @[simp] theorem folderEntries_emM_folder (p t : Str) :
@@ -59,6 +66,7 @@ def filePaths (o : Out) : List Str := (fileEntries o).map (·.path)
 @[simp] theorem names_xmlPart (F : Str) (k : PartKind) (n : Str) (i : Nat) : names (xmlPart F k n i) = [F ++ n] := rfl
 @[simp] theorem filePaths_xmlPart (F : Str) (k : PartKind) (n : Str) (i : Nat) :
     filePaths (xmlPart F k n i) = [F ++ n] := rfl
+@[simp] theorem paths_xmlPart (F : Str) (k : PartKind) (n : Str) (i : Nat) : paths (xmlPart F k n i) = [F ++ n] := rfl
 @[simp] theorem folderEntries_xmlPart (F : Str) (k : PartKind) (n : Str) (i : Nat) :
     folderEntries (xmlPart F k n i) = [] := rfl
 
@@ -81,18 +89,18 @@ theorem required_members (d : Doc) :
 /-! ### the manifest lists exactly the files of the archive -/
 
 mutual
-theorem balanced_saveXml (top : Bool) (F : Str) (d : Doc) :
-    names (saveXml top F d) = filePaths (saveXml top F d) := by
+theorem balanced_saveXml (L : Nat) (top : Bool) (F : Str) (d : Doc) :
+    names (saveXml L top F d) = filePaths (saveXml L top F d) := by
   cases d with
   | mk id mt hs pics th ex fo kids =>
-    have ih := balanced_saveXmlKids F 1 kids
+    have ih := balanced_saveXmlKids L kids
     cases hs <;> cases top <;> simp [saveXml, ih]
-theorem balanced_saveXmlKids (F : Str) (k : Nat) (ds : List Doc) :
-    names (saveXmlKids F k ds) = filePaths (saveXmlKids F k ds) := by
+theorem balanced_saveXmlKids (L : Nat) (ds : List Doc) :
+    names (saveXmlKids L ds) = filePaths (saveXmlKids L ds) := by
   cases ds with
   | nil => simp [saveXmlKids]
   | cons c cs =>
-    simp [saveXmlKids, balanced_saveXml false (F ++ objPrefix k) c, balanced_saveXmlKids F (k+1) cs]
+    simp [saveXmlKids, balanced_saveXml L false (stor L c) c, balanced_saveXmlKids L cs]
 end
 
 theorem balanced_picsOut (F : Str) (ps : List Pic) : names (picsOut F ps) = filePaths (picsOut F ps) := by
@@ -101,22 +109,22 @@ theorem balanced_picsOut (F : Str) (ps : List Pic) : names (picsOut F ps) = file
   | cons p ps ih => simp [picsOut, picOut, ih]
 
 mutual
-theorem balanced_savePics (F : Str) (d : Doc) : names (savePics F d) = filePaths (savePics F d) := by
+theorem balanced_savePics (L : Nat) (F : Str) (d : Doc) : names (savePics L F d) = filePaths (savePics L F d) := by
   cases d with
   | mk id mt hs pics th ex fo kids =>
-    simp [savePics, balanced_picsOut, balanced_savePicsKids F 1 kids]
-theorem balanced_savePicsKids (F : Str) (k : Nat) (ds : List Doc) :
-    names (savePicsKids F k ds) = filePaths (savePicsKids F k ds) := by
+    simp [savePics, balanced_picsOut, balanced_savePicsKids L kids]
+theorem balanced_savePicsKids (L : Nat) (ds : List Doc) :
+    names (savePicsKids L ds) = filePaths (savePicsKids L ds) := by
   cases ds with
   | nil => simp [savePicsKids]
   | cons c cs =>
-    simp [savePicsKids, balanced_savePics (F ++ objPrefix k) c, balanced_savePicsKids F (k+1) cs]
+    simp [savePicsKids, balanced_savePics L (stor L c) c, balanced_savePicsKids L cs]
 end
 
 theorem balanced_thumbOut (t : Option Thumb) : names (thumbOut t) = filePaths (thumbOut t) := by
   cases t <;> simp [thumbOut]
 
-theorem balanced_extrasOut (es : List Extra) : names (extrasOut es) = filePaths (extrasOut es) := by
+theorem balanced_extrasOut (F : Str) (es : List Extra) : names (extrasOut F es) = filePaths (extrasOut F es) := by
   induction es with
   | nil => simp [extrasOut]
   | cons e es ih =>
@@ -127,12 +135,26 @@ theorem balanced_extrasOut (es : List Extra) : names (extrasOut es) = filePaths 
     · rfl
     · cases e.content <;> simp
 
+mutual
+theorem balanced_saveExtras (L : Nat) (F : Str) (d : Doc) :
+    names (saveExtras L F d) = filePaths (saveExtras L F d) := by
+  cases d with
+  | mk id mt hs pics th ex fo kids =>
+    simp [saveExtras, balanced_extrasOut, balanced_saveExtrasKids L kids]
+theorem balanced_saveExtrasKids (L : Nat) (ds : List Doc) :
+    names (saveExtrasKids L ds) = filePaths (saveExtrasKids L ds) := by
+  cases ds with
+  | nil => simp [saveExtrasKids]
+  | cons c cs =>
+    simp [saveExtrasKids, balanced_saveExtras L (stor L c) c, balanced_saveExtrasKids L cs]
+end
+
 /-- **C03 (manifest exactness, ordered form)**: the member names of the archive are `mimetype`, then
     exactly the paths of the manifest's file entries *in the same order*, then `META-INF/manifest.xml`.
     No omission, no extra, each file under the path where its bytes are. -/
 theorem manifest_exact_ordered (d : Doc) :
     names (save d) = sMimetype :: (filePaths (save d) ++ [sManifestPath]) := by
-  simp [save, balanced_saveXml, balanced_savePics, balanced_thumbOut, balanced_extrasOut]
+  simp [save, balanced_saveXml, balanced_savePics, balanced_thumbOut, balanced_saveExtras]
 
 /-- **C03 (manifest exactness)**: the paths of the manifest's file entries are a permutation of the
     archive's member names minus one `mimetype` and one `META-INF/manifest.xml` (multiset
@@ -151,34 +173,44 @@ theorem manifest_exact (d : Doc) :
 /-! ### which manifest entries are folder entries -/
 
 mutual
-/-- the folder entries `_saveXmlObjects` produces for the objects below a document -/
-def objFolderEntries (F : Str) (k : Nat) : List Doc → List ME
+/-- the folder entries `_saveXmlObjects` produces for the sub-documents of a document -/
+def objFolderEntries (L : Nat) : List Doc → List ME
   | [] => []
-  | c :: cs => objFolderEntries1 (F ++ objPrefix k) c ++ objFolderEntries F (k+1) cs
-def objFolderEntries1 (F : Str) : Doc → List ME
-  | ⟨_, mt, _, _, _, _, _, kids⟩ => ⟨F, mt, true⟩ :: objFolderEntries F 1 kids
+  | c :: cs => objFolderEntries1 L (stor L c) c ++ objFolderEntries L cs
+def objFolderEntries1 (L : Nat) (F : Str) : Doc → List ME
+  | ⟨_, mt, _, _, _, _, _, kids⟩ => ⟨F, mt, true⟩ :: objFolderEntries L kids
 end
 
 def thumbFolderEntries : Option Thumb → List ME
   | none => []
   | some _ => [⟨sThumbDir, [], true⟩]
 
-def extraFolderEntries (es : List Extra) : List ME :=
-  (es.filter (fun e => e.filename ≠ sDocSig ∧ e.content.isNone)).map (fun e => ⟨e.filename, e.mediatype, true⟩)
+/-- the extras of one document that are written without a member -/
+def extraFolderEntries (F : Str) (es : List Extra) : List ME :=
+  (es.filter (fun e => e.filename ≠ sDocSig ∧ e.content.isNone)).map (fun e => ⟨F ++ e.filename, e.mediatype, true⟩)
 
 mutual
-theorem folderEntries_saveXmlKids (F : Str) (k : Nat) (ds : List Doc) :
-    folderEntries (saveXmlKids F k ds) = objFolderEntries F k ds := by
+/-- … of a document and all its sub-documents, in `_allExtras` order -/
+def treeExtraFolderEntries (L : Nat) (F : Str) : Doc → List ME
+  | ⟨_, _, _, _, _, ex, _, kids⟩ => extraFolderEntries F ex ++ treeExtraFolderEntriesK L kids
+def treeExtraFolderEntriesK (L : Nat) : List Doc → List ME
+  | [] => []
+  | c :: cs => treeExtraFolderEntries L (stor L c) c ++ treeExtraFolderEntriesK L cs
+end
+
+mutual
+theorem folderEntries_saveXmlKids (L : Nat) (ds : List Doc) :
+    folderEntries (saveXmlKids L ds) = objFolderEntries L ds := by
   cases ds with
   | nil => simp [saveXmlKids, objFolderEntries]
   | cons c cs =>
-    simp [saveXmlKids, objFolderEntries, folderEntries_saveXml_sub (F ++ objPrefix k) c,
-      folderEntries_saveXmlKids F (k+1) cs]
-theorem folderEntries_saveXml_sub (F : Str) (d : Doc) :
-    folderEntries (saveXml false F d) = objFolderEntries1 F d := by
+    simp [saveXmlKids, objFolderEntries, folderEntries_saveXml_sub L (stor L c) c,
+      folderEntries_saveXmlKids L cs]
+theorem folderEntries_saveXml_sub (L : Nat) (F : Str) (d : Doc) :
+    folderEntries (saveXml L false F d) = objFolderEntries1 L F d := by
   cases d with
   | mk id mt hs pics th ex fo kids =>
-    cases hs <;> simp [saveXml, objFolderEntries1, folderEntries_saveXmlKids F 1 kids]
+    cases hs <;> simp [saveXml, objFolderEntries1, folderEntries_saveXmlKids L kids]
 end
 
 theorem folderEntries_picsOut (F : Str) (ps : List Pic) : folderEntries (picsOut F ps) = [] := by
@@ -187,20 +219,20 @@ theorem folderEntries_picsOut (F : Str) (ps : List Pic) : folderEntries (picsOut
   | cons p ps ih => simp [picsOut, picOut, ih]
 
 mutual
-theorem folderEntries_savePics (F : Str) (d : Doc) : folderEntries (savePics F d) = [] := by
+theorem folderEntries_savePics (L : Nat) (F : Str) (d : Doc) : folderEntries (savePics L F d) = [] := by
   cases d with
   | mk id mt hs pics th ex fo kids =>
-    simp [savePics, folderEntries_picsOut, folderEntries_savePicsKids F 1 kids]
-theorem folderEntries_savePicsKids (F : Str) (k : Nat) (ds : List Doc) :
-    folderEntries (savePicsKids F k ds) = [] := by
+    simp [savePics, folderEntries_picsOut, folderEntries_savePicsKids L kids]
+theorem folderEntries_savePicsKids (L : Nat) (ds : List Doc) :
+    folderEntries (savePicsKids L ds) = [] := by
   cases ds with
   | nil => simp [savePicsKids]
   | cons c cs =>
-    simp [savePicsKids, folderEntries_savePics (F ++ objPrefix k) c, folderEntries_savePicsKids F (k+1) cs]
+    simp [savePicsKids, folderEntries_savePics L (stor L c) c, folderEntries_savePicsKids L cs]
 end
 
-theorem folderEntries_extrasOut (es : List Extra) :
-    folderEntries (extrasOut es) = extraFolderEntries es := by
+theorem folderEntries_extrasOut (F : Str) (es : List Extra) :
+    folderEntries (extrasOut F es) = extraFolderEntries F es := by
   induction es with
   | nil => simp [extrasOut, extraFolderEntries]
   | cons e es ih =>
@@ -210,24 +242,39 @@ theorem folderEntries_extrasOut (es : List Extra) :
     · simp [h]
     · cases hc : e.content <;> simp [h, hc]
 
+mutual
+theorem folderEntries_saveExtras (L : Nat) (F : Str) (d : Doc) :
+    folderEntries (saveExtras L F d) = treeExtraFolderEntries L F d := by
+  cases d with
+  | mk id mt hs pics th ex fo kids =>
+    simp [saveExtras, treeExtraFolderEntries, folderEntries_extrasOut, folderEntries_saveExtrasKids L kids]
+theorem folderEntries_saveExtrasKids (L : Nat) (ds : List Doc) :
+    folderEntries (saveExtrasKids L ds) = treeExtraFolderEntriesK L ds := by
+  cases ds with
+  | nil => simp [saveExtrasKids, treeExtraFolderEntriesK]
+  | cons c cs =>
+    simp [saveExtrasKids, treeExtraFolderEntriesK, folderEntries_saveExtras L (stor L c) c,
+      folderEntries_saveExtrasKids L cs]
+end
+
 /-- **C03 (which manifest entries are folder entries)**: the entries written without a member are, in
     this order: the root "/" with the document's media type; one entry per embedded object, its path
-    the object's positional folder `…Object k/` and its media type the object's; "Thumbnails/" if
-    there is a thumbnail; the extras whose content is None.  Everything else in the manifest is a file
-    entry and is covered by `manifest_exact`. -/
+    the folder the object is stored in (`stor`: its `folder` attribute relative to the saved document,
+    plus "/") and its media type the object's; "Thumbnails/" if there is a thumbnail; the extras
+    (of the document and of every sub-document, below its folder) whose content is None.  Everything
+    else in the manifest is a file entry and is covered by `manifest_exact`. -/
 theorem folder_entries (d : Doc) :
     folderEntries (save d) =
-      ⟨sSlash, d.mimetype, true⟩ :: objFolderEntries [] 1 d.children
-        ++ thumbFolderEntries d.thumbnail ++ extraFolderEntries d.extras := by
+      ⟨sSlash, d.mimetype, true⟩ :: objFolderEntries d.folder.length d.children
+        ++ thumbFolderEntries d.thumbnail ++ treeExtraFolderEntries d.folder.length [] d := by
   cases d with
   | mk id mt hs pics th ex fo kids =>
     have hth : folderEntries (thumbOut th) = thumbFolderEntries th := by
       cases th <;> simp [thumbOut, thumbFolderEntries]
     cases hs <;>
-      simp [save, saveXml, folderEntries_saveXmlKids, folderEntries_savePics, folderEntries_extrasOut, hth]
+      simp [save, saveXml, folderEntries_saveXmlKids, folderEntries_savePics, folderEntries_saveExtras, hth]
 
-
-/-! ### every object of the tree, at any depth: media type, parts, pictures -/
+/-! ### every object of the tree, at any depth: media type, parts, pictures, extras -/
 
 /-- the members `_saveXmlObjects` writes for one object stored in folder `G` -/
 def ownXmlZ (G : Str) (o : Doc) : List ZE :=
@@ -239,9 +286,9 @@ def ownXmlM (G : Str) (o : Doc) : List ME :=
   ++ (if o.hasSettings then [⟨G ++ sSettings, sTextXml, false⟩] else [])
 
 mutual
-theorem xml_sub (top : Bool) (F : Str) (d : Doc) :
-    ∀ p ∈ objects F d, (∀ e ∈ ownXmlZ p.1 p.2, e ∈ (saveXml top F d).zip)
-      ∧ (∀ e ∈ ownXmlM p.1 p.2, e ∈ (saveXml top F d).man) := by
+theorem xml_sub (L : Nat) (top : Bool) (F : Str) (d : Doc) :
+    ∀ p ∈ objects L F d, (∀ e ∈ ownXmlZ p.1 p.2, e ∈ (saveXml L top F d).zip)
+      ∧ (∀ e ∈ ownXmlM p.1 p.2, e ∈ (saveXml L top F d).man) := by
   cases d with
   | mk id mt hs pics th ex fo kids =>
     intro p hp
@@ -249,30 +296,30 @@ theorem xml_sub (top : Bool) (F : Str) (d : Doc) :
     rcases hp with hp | hp
     · subst hp
       cases hs <;> cases top <;> simp [ownXmlZ, ownXmlM, saveXml, xmlPart]
-    · have := xml_subK F 1 kids p hp
+    · have := xml_subK L kids p hp
       constructor
       · intro e he; simp [saveXml, this.1 e he]
       · intro e he; simp [saveXml, this.2.1 e he]
-theorem xml_subK (F : Str) (k : Nat) (ds : List Doc) :
-    ∀ p ∈ objectsK F k ds, (∀ e ∈ ownXmlZ p.1 p.2, e ∈ (saveXmlKids F k ds).zip)
-      ∧ (∀ e ∈ ownXmlM p.1 p.2, e ∈ (saveXmlKids F k ds).man)
-      ∧ ⟨p.1, p.2.mimetype, true⟩ ∈ (saveXmlKids F k ds).man := by
+theorem xml_subK (L : Nat) (ds : List Doc) :
+    ∀ p ∈ objectsK L ds, (∀ e ∈ ownXmlZ p.1 p.2, e ∈ (saveXmlKids L ds).zip)
+      ∧ (∀ e ∈ ownXmlM p.1 p.2, e ∈ (saveXmlKids L ds).man)
+      ∧ ⟨p.1, p.2.mimetype, true⟩ ∈ (saveXmlKids L ds).man := by
   cases ds with
   | nil => simp [objectsK]
   | cons c cs =>
     intro p hp
     simp only [objectsK, List.mem_append] at hp
     rcases hp with hp | hp
-    · have h1 := xml_sub false (F ++ objPrefix k) c p hp
+    · have h1 := xml_sub L false (stor L c) c p hp
       refine ⟨fun e he => by simp [saveXmlKids, h1.1 e he], fun e he => by simp [saveXmlKids, h1.2 e he], ?_⟩
       cases c with
       | mk id mt hs pics th ex fo kids =>
         simp only [objects, List.mem_cons] at hp
         rcases hp with hp | hp
         · subst hp; simp [saveXmlKids, saveXml]
-        · have := (xml_subK (F ++ objPrefix k) 1 kids p hp).2.2
+        · have := (xml_subK L kids p hp).2.2
           simp [saveXmlKids, saveXml, this]
-    · have h2 := xml_subK F (k+1) cs p hp
+    · have h2 := xml_subK L cs p hp
       exact ⟨fun e he => by simp [saveXmlKids, h2.1 e he], fun e he => by simp [saveXmlKids, h2.2.1 e he],
         by simp [saveXmlKids, h2.2.2]⟩
 end
@@ -290,10 +337,10 @@ theorem pics_mem (F : Str) (ps : List Pic) : ∀ pic ∈ ps,
     · have := ih pic hp; simp [picsOut, this.1, this.2]
 
 mutual
-theorem pics_sub (F : Str) (d : Doc) :
-    ∀ p ∈ objects F d, ∀ pic ∈ p.2.pictures,
-      (⟨p.1 ++ pic.href, .stored, [], picContent pic.src⟩ : ZE) ∈ (savePics F d).zip
-        ∧ (⟨p.1 ++ pic.href, pic.mediatype, false⟩ : ME) ∈ (savePics F d).man := by
+theorem pics_sub (L : Nat) (F : Str) (d : Doc) :
+    ∀ p ∈ objects L F d, ∀ pic ∈ p.2.pictures,
+      (⟨p.1 ++ pic.href, .stored, [], picContent pic.src⟩ : ZE) ∈ (savePics L F d).zip
+        ∧ (⟨p.1 ++ pic.href, pic.mediatype, false⟩ : ME) ∈ (savePics L F d).man := by
   cases d with
   | mk id mt hs pics th ex fo kids =>
     intro p hp pic hpic
@@ -302,36 +349,90 @@ theorem pics_sub (F : Str) (d : Doc) :
     · subst hp
       have := pics_mem F pics pic hpic
       simp [savePics, this.1, this.2]
-    · have := pics_subK F 1 kids p hp pic hpic
+    · have := pics_subK L kids p hp pic hpic
       simp [savePics, this.1, this.2]
-theorem pics_subK (F : Str) (k : Nat) (ds : List Doc) :
-    ∀ p ∈ objectsK F k ds, ∀ pic ∈ p.2.pictures,
-      (⟨p.1 ++ pic.href, .stored, [], picContent pic.src⟩ : ZE) ∈ (savePicsKids F k ds).zip
-        ∧ (⟨p.1 ++ pic.href, pic.mediatype, false⟩ : ME) ∈ (savePicsKids F k ds).man := by
+theorem pics_subK (L : Nat) (ds : List Doc) :
+    ∀ p ∈ objectsK L ds, ∀ pic ∈ p.2.pictures,
+      (⟨p.1 ++ pic.href, .stored, [], picContent pic.src⟩ : ZE) ∈ (savePicsKids L ds).zip
+        ∧ (⟨p.1 ++ pic.href, pic.mediatype, false⟩ : ME) ∈ (savePicsKids L ds).man := by
   cases ds with
   | nil => simp [objectsK]
   | cons c cs =>
     intro p hp pic hpic
     simp only [objectsK, List.mem_append] at hp
     rcases hp with hp | hp
-    · have := pics_sub (F ++ objPrefix k) c p hp pic hpic
+    · have := pics_sub L (stor L c) c p hp pic hpic
       simp [savePicsKids, this.1, this.2]
-    · have := pics_subK F (k+1) cs p hp pic hpic
+    · have := pics_subK L cs p hp pic hpic
       simp [savePicsKids, this.1, this.2]
 end
 
+/-- what `save` writes for one extra `x` of an object stored in `F`: a manifest entry with its media type
+    under `F ++ name` and, if it has content, the member with exactly these bytes -/
+def ExtraWritten (o : Out) (F : Str) (x : Extra) : Prop :=
+  (∃ fl, (⟨F ++ x.filename, x.mediatype, fl⟩ : ME) ∈ o.man) ∧
+  (∀ b, x.content = some b → (⟨F ++ x.filename, .deflated, [], .bytes b⟩ : ZE) ∈ o.zip)
+
+theorem ExtraWritten.left {a b : Out} {F : Str} {x : Extra} (h : ExtraWritten a F x) : ExtraWritten (a ++ b) F x := by
+  obtain ⟨⟨fl, h1⟩, h2⟩ := h
+  exact ⟨⟨fl, by simp [h1]⟩, fun c hc => by simp [h2 c hc]⟩
+
+theorem ExtraWritten.right {a b : Out} {F : Str} {x : Extra} (h : ExtraWritten b F x) : ExtraWritten (a ++ b) F x := by
+  obtain ⟨⟨fl, h1⟩, h2⟩ := h
+  exact ⟨⟨fl, by simp [h1]⟩, fun c hc => by simp [h2 c hc]⟩
+
+theorem extras_mem (F : Str) (es : List Extra) (x : Extra) (hx : x ∈ es) (hs : x.filename ≠ sDocSig) :
+    ExtraWritten (extrasOut F es) F x := by
+  induction es with
+  | nil => cases hx
+  | cons e es ih =>
+    simp only [extrasOut]
+    rcases List.mem_cons.mp hx with rfl | hx'
+    · apply ExtraWritten.left
+      unfold extraOut
+      simp only [hs, if_false]
+      cases hc : x.content with
+      | none => exact ⟨⟨true, by simp⟩, fun b hb => by rw [hc] at hb; cases hb⟩
+      | some b0 => exact ⟨⟨false, by simp⟩, fun b hb => by rw [hc] at hb; cases hb; simp⟩
+    · exact ExtraWritten.right (ih hx')
+
+mutual
+theorem extras_sub (L : Nat) (F : Str) (d : Doc) :
+    ∀ p ∈ objects L F d, ∀ x ∈ p.2.extras, x.filename ≠ sDocSig → ExtraWritten (saveExtras L F d) p.1 x := by
+  cases d with
+  | mk id mt hs pics th ex fo kids =>
+    intro p hp x hx hs'
+    simp only [objects, List.mem_cons] at hp
+    simp only [saveExtras]
+    rcases hp with hp | hp
+    · subst hp
+      exact ExtraWritten.left (extras_mem F ex x hx hs')
+    · exact ExtraWritten.right (extras_subK L kids p hp x hx hs')
+theorem extras_subK (L : Nat) (ds : List Doc) :
+    ∀ p ∈ objectsK L ds, ∀ x ∈ p.2.extras, x.filename ≠ sDocSig → ExtraWritten (saveExtrasKids L ds) p.1 x := by
+  cases ds with
+  | nil => simp [objectsK]
+  | cons c cs =>
+    intro p hp x hx hs'
+    simp only [objectsK, List.mem_append] at hp
+    simp only [saveExtrasKids]
+    rcases hp with hp | hp
+    · exact ExtraWritten.left (extras_sub L (stor L c) c p hp x hx hs')
+    · exact ExtraWritten.right (extras_subK L cs p hp x hx hs')
+end
+
 /-- **C03 (media types of the root and of every object folder)**: the manifest entry "/" carries the
-    document's media type, and for every embedded object `o`, at any nesting depth, stored in
-    (positional) folder `G`, the manifest has the folder entry `G` with `o`'s media type. -/
+    document's media type, and for every embedded object `o`, at any nesting depth, stored in folder `G`,
+    the manifest has the folder entry `G` with `o`'s media type. -/
 theorem root_and_object_mediatypes (d : Doc) :
     (⟨sSlash, d.mimetype, true⟩ : ME) ∈ (save d).man ∧
-    ∀ p ∈ objectsK [] 1 d.children, (⟨p.1, p.2.mimetype, true⟩ : ME) ∈ (save d).man := by
+    ∀ p ∈ objectsK d.folder.length d.children, (⟨p.1, p.2.mimetype, true⟩ : ME) ∈ (save d).man := by
   cases d with
   | mk id mt hs pics th ex fo kids =>
     constructor
     · simp [save, saveXml]
     · intro p hp
-      have := (xml_subK [] 1 kids p hp).2.2
+      have := (xml_subK fo.length kids p hp).2.2
       simp [save, saveXml, this]
 
 /-- **C03 (every object's own parts are where its folder is)**: for every object of the tree (the top
@@ -339,9 +440,10 @@ theorem root_and_object_mediatypes (d : Doc) :
     settings — are members under its folder, deflated, holding *that* object's part, and listed as
     text/xml. -/
 theorem parts_present (d : Doc) :
-    ∀ p ∈ objects [] d, (∀ e ∈ ownXmlZ p.1 p.2, e ∈ (save d).zip) ∧ (∀ e ∈ ownXmlM p.1 p.2, e ∈ (save d).man) := by
+    ∀ p ∈ objects d.folder.length [] d,
+      (∀ e ∈ ownXmlZ p.1 p.2, e ∈ (save d).zip) ∧ (∀ e ∈ ownXmlM p.1 p.2, e ∈ (save d).man) := by
   intro p hp
-  have := xml_sub true [] d p hp
+  have := xml_sub d.folder.length true [] d p hp
   exact ⟨fun e he => by simp [save, this.1 e he], fun e he => by simp [save, this.2 e he]⟩
 
 /-- **C03 (pictures)**: every picture registered in any object of the tree is a member under
@@ -349,13 +451,22 @@ theorem parts_present (d : Doc) :
     `parts_present`), stored, with exactly its bytes, and the manifest lists that path with the
     picture's media type. -/
 theorem pictures_present (d : Doc) :
-    ∀ p ∈ objects [] d, ∀ pic ∈ p.2.pictures,
+    ∀ p ∈ objects d.folder.length [] d, ∀ pic ∈ p.2.pictures,
       (⟨p.1 ++ pic.href, .stored, [], picContent pic.src⟩ : ZE) ∈ (save d).zip
         ∧ (⟨p.1 ++ pic.href, pic.mediatype, false⟩ : ME) ∈ (save d).man := by
   intro p hp pic hpic
-  have := pics_sub [] d p hp pic hpic
+  have := pics_sub d.folder.length [] d p hp pic hpic
   simp [save, this.1, this.2]
 
+/-- **C03 (extra members)**: every extra of any object of the tree (except META-INF/documentsignatures.xml)
+    is listed under `folder ++ name` with its media type, and if it has content the member is there,
+    deflated, with exactly its bytes. -/
+theorem extras_present (d : Doc) :
+    ∀ p ∈ objects d.folder.length [] d, ∀ x ∈ p.2.extras, x.filename ≠ sDocSig → ExtraWritten (save d) p.1 x := by
+  intro p hp x hx hs
+  have := extras_sub d.folder.length [] d p hp x hx hs
+  simp only [save]
+  exact ExtraWritten.left (ExtraWritten.right this)
 
 /-- **C03 (thumbnail)**: a thumbnail is the member "Thumbnails/thumbnail.png", deflated, with exactly its
     bytes, listed with the media type the document carries for it ("" for a thumbnail set through the
@@ -365,61 +476,205 @@ theorem thumbnail_present (d : Doc) (t : Thumb) (h : d.thumbnail = some t) :
       ∧ (⟨sThumb, t.mediatype, false⟩ : ME) ∈ (save d).man := by
   simp [save, h, thumbOut]
 
-/-- `load` keeps the media type the manifest gave "Thumbnails/thumbnail.png" -/
-theorem load_keeps_thumbnail_mediatype :
-    (load ⟨some sOdt, [(sSlash, sOdt), (sContent, sTextXml), (sThumbDir, []), (sThumb, [105])],
-           [(sContent, [60]), (sThumb, [5, 6])], []⟩).map
-      (fun d => (d.thumbnail, (save d).man.filter (fun e => e.path == sThumb)))
-      = some (some ⟨[5, 6], [105]⟩, [⟨sThumb, [105], false⟩]) := by
-  decide
+/-! ### no manifest path and no member name occurs twice -/
 
-/-! ### no member name occurs twice -/
+/-- begins with "Object " -/
+def startsObj (s : Str) : Bool := s.take 7 == sObjectSp
+/-- ends with "/" -/
+def endsSlash (s : Str) : Bool := s.getLast? == some 47
 
-/-! #### `"%d"` is injective and produces digits only -/
+/-- names the package layer generates itself inside the folder of a document -/
+def reservedFor (top : Bool) : List Str :=
+  if top then [sStyles, sContent, sSettings, sMeta, sMimetype, sThumb, sManifestPath, sSlash, sThumbDir]
+  else [sStyles, sContent, sSettings]
 
-theorem decAux_digits : ∀ (f n : Nat) (c : Nat), c ∈ decAux f n → (48 : Nat) ≤ c ∧ c ≤ (57 : Nat) := by
-  intro f
-  induction f with
-  | zero =>
-    intro n c hc
-    simp only [decAux, List.mem_singleton] at hc
-    subst hc; constructor <;> omega
-  | succ f ih =>
-    intro n c hc
-    by_cases hn : n < 10
-    · simp only [decAux, hn, if_true, List.mem_singleton] at hc
-      subst hc; constructor <;> omega
-    · simp only [decAux, hn, if_false, List.mem_append, List.mem_singleton] at hc
-      rcases hc with hc | hc
-      · exact ih _ c hc
-      · subst hc; constructor <;> omega
+/-- the name of a sub-document inside its parent's folder: `c.folder[len(self.folder)+1:]` -/
+def kidName (fo : Str) (c : Doc) : Str := c.folder.drop (fo.length + 1)
 
-def undec (s : Str) : Nat := s.foldl (fun a c => a * 10 + (c - 48)) 0
+/-- the extras that `save` writes -/
+def liveExtras (es : List Extra) : List Extra := es.filter (fun e => e.filename ≠ sDocSig)
 
-theorem undec_snoc (s : Str) (c : Nat) : undec (s ++ [c]) = undec s * 10 + (c - 48) := by
-  simp [undec, List.foldl_append]
+/-- the names chosen by the caller / the loaded package inside one document: picture hrefs and extra names -/
+def givenNames (pics : List Pic) (ex : List Extra) : List Str :=
+  pics.map (·.href) ++ (liveExtras ex).map (·.filename)
 
-theorem undec_decAux : ∀ (f n : Nat), n ≤ f → undec (decAux f n) = n := by
-  intro f
-  induction f with
-  | zero =>
-    intro n h
-    have : n = 0 := by omega
-    subst this; simp [decAux, undec]
-  | succ f ih =>
-    intro n h
-    by_cases hn : n < 10
-    · simp [decAux, hn, undec]
-    · have h10 : n / 10 ≤ f := by omega
-      simp only [decAux, hn, if_false]
-      rw [undec_snoc, ih (n / 10) h10]; omega
+/-- well-formedness of one document of the tree (decidable):
+    * picture hrefs and extra names are pairwise distinct, not empty, and none is a name the package layer
+      generates in that folder (styles.xml, content.xml, settings.xml; for the top document also meta.xml,
+      mimetype, Thumbnails/thumbnail.png, META-INF/manifest.xml, "/", "Thumbnails/");
+    * an extra has content None exactly if its name ends in "/";
+    * the names of the sub-documents are pairwise distinct, not empty and contain no "/", and every
+      sub-document's `folder` is this document's `folder` + "/" + its name (what `addObject` and `load` establish);
+    * no generated or given name lies inside the folder of a sub-document (begins with its name + "/"). -/
+def nodeOK (top : Bool) (pics : List Pic) (ex : List Extra) (fo : Str) (kids : List Doc) : Bool :=
+  decide (givenNames pics ex).Nodup && decide (kids.map (kidName fo)).Nodup
+  && (givenNames pics ex).all (fun n => !(reservedFor top).contains n && n != [])
+  && (liveExtras ex).all (fun e => e.content.isNone == endsSlash e.filename)
+  && kids.all (fun c => kidName fo c != [] && !(kidName fo c).contains 47
+        && c.folder == fo ++ sSlash ++ kidName fo c
+        && (reservedFor top ++ givenNames pics ex).all (fun n => !(kidName fo c ++ sSlash).isPrefixOf n))
 
-theorem dec_inj {k j : Nat} (h : dec k = dec j) : k = j := by
-  have := congrArg undec h
-  simpa [dec, undec_decAux] using this
+mutual
+def treeOK (top : Bool) : Doc → Bool
+  | ⟨_, _, _, pics, _, ex, fo, kids⟩ => nodeOK top pics ex fo kids && treeOKs kids
+def treeOKs : List Doc → Bool
+  | [] => true
+  | c :: cs => treeOK false c && treeOKs cs
+end
 
-theorem dec_no_slash (k : Nat) : 47 ∉ dec k := by
-  intro h; have := (decAux_digits k k 47 h).1; omega
+/-- **`DocOK d`** — the decidable well-formedness hypothesis of `manifest_nodup` and `names_nodup`: `nodeOK`
+    for every document of the tree. -/
+def DocOK (d : Doc) : Bool := treeOK true d
+
+/-! #### paths relative to a document's folder -/
+
+def xmlOwn (hs : Bool) : List Str := [sStyles, sContent] ++ (if hs then [sSettings] else [])
+
+mutual
+/-- every manifest path below the folder of a document, relative to it (without the folder entry itself) -/
+def relAll : Doc → List Str
+  | ⟨_, _, hs, pics, _, ex, fo, kids⟩ => (xmlOwn hs ++ givenNames pics ex) ++ relKids fo kids
+def relKids (fo : Str) : List Doc → List Str
+  | [] => []
+  | c :: cs => ([] :: relAll c).map (fun x => kidName fo c ++ sSlash ++ x) ++ relKids fo cs
+end
+
+/-- where a document is stored, relative to `L = len(folder of the saved document)`: the saved document
+    itself in "", every other one in `stor L d` -/
+def Placed (L : Nat) (F : Str) (d : Doc) : Prop :=
+  (d.folder.length = L ∧ F = []) ∨ (L < d.folder.length ∧ F = stor L d)
+
+theorem stor_child (L : Nat) (F : Str) (d c : Doc) (k : Str) (hp : Placed L F d)
+    (hc : c.folder = d.folder ++ sSlash ++ k) : stor L c = F ++ k ++ sSlash ∧ Placed L (stor L c) c := by
+  have hlen : L < c.folder.length := by
+    rw [hc]; simp [sSlash]
+    rcases hp with ⟨h, _⟩ | ⟨h, _⟩ <;> omega
+  refine ⟨?_, Or.inr ⟨hlen, rfl⟩⟩
+  rcases hp with ⟨h, rfl⟩ | ⟨h, rfl⟩
+  · simp only [stor, hc, sSlash, List.append_assoc, List.nil_append]
+    rw [List.drop_append]
+    have : List.drop (L + 1) d.folder = [] := by apply List.drop_eq_nil_of_le; omega
+    simp [this, h]
+  · simp only [stor, hc, sSlash, List.append_assoc]
+    rw [List.drop_append]
+    have : L + 1 - d.folder.length = 0 := by omega
+    simp [this]
+
+mutual
+/-- the `folder` attributes of the tree are consistent -/
+def wf : Doc → Bool
+  | ⟨_, _, _, _, _, _, fo, kids⟩ => kids.all (fun c => c.folder == fo ++ sSlash ++ kidName fo c) && wfs kids
+def wfs : List Doc → Bool
+  | [] => true
+  | c :: cs => wf c && wfs cs
+end
+
+mutual
+theorem wf_of_treeOK (top : Bool) (d : Doc) (h : treeOK top d = true) : wf d = true := by
+  cases d with
+  | mk id mt hs pics th ex fo kids =>
+    simp only [treeOK, nodeOK, Bool.and_eq_true, List.all_eq_true] at h
+    simp only [wf, Bool.and_eq_true, List.all_eq_true]
+    exact ⟨fun c hc => (h.1.2 c hc).1.2, wfs_of_treeOKs kids h.2⟩
+theorem wfs_of_treeOKs (ds : List Doc) (h : treeOKs ds = true) : wfs ds = true := by
+  cases ds with
+  | nil => rfl
+  | cons c cs =>
+    simp only [treeOKs, Bool.and_eq_true] at h
+    simp only [wfs, Bool.and_eq_true]
+    exact ⟨wf_of_treeOK false c h.1, wfs_of_treeOKs cs h.2⟩
+end
+
+theorem perm_interleave3 {α} (a b c a' b' c' : List α) :
+    ((a ++ a') ++ (b ++ b') ++ (c ++ c')).Perm ((a ++ b ++ c) ++ (a' ++ b' ++ c')) := by
+  have h1 : ((a ++ a') ++ (b ++ b')).Perm ((a ++ b) ++ (a' ++ b')) := by
+    simp only [List.append_assoc]
+    apply List.Perm.append_left
+    rw [← List.append_assoc, ← List.append_assoc]
+    exact List.Perm.append_right _ List.perm_append_comm
+  refine (List.Perm.append_right _ h1).trans ?_
+  simp only [List.append_assoc]
+  apply List.Perm.append_left
+  apply List.Perm.append_left
+  have : ((a' ++ b') ++ c ++ c').Perm (c ++ (a' ++ b') ++ c') := List.Perm.append_right _ List.perm_append_comm
+  simpa [List.append_assoc] using this
+
+theorem paths_picsOut (F : Str) (ps : List Pic) : paths (picsOut F ps) = ps.map (fun p => F ++ p.href) := by
+  induction ps with
+  | nil => simp [picsOut]
+  | cons p ps ih => simp [picsOut, picOut, ih]
+
+theorem paths_extrasOut (F : Str) (es : List Extra) :
+    paths (extrasOut F es) = (liveExtras es).map (fun e => F ++ e.filename) := by
+  induction es with
+  | nil => simp [extrasOut, liveExtras]
+  | cons e es ih =>
+    simp only [extrasOut, paths_append, ih]
+    unfold extraOut liveExtras
+    by_cases h : e.filename = sDocSig
+    · simp [h]
+    · cases hc : e.content <;> simp [h, hc]
+
+/-- the manifest paths `_saveXmlObjects` writes for a sub-document after its folder entry -/
+def bodyPaths (L : Nat) (F : Str) (hs : Bool) (kids : List Doc) : List Str :=
+  (xmlOwn hs).map (F ++ ·) ++ paths (saveXmlKids L kids)
+
+theorem paths_saveXml_sub (L : Nat) (F : Str) (id : Nat) (mt : Str) (hs : Bool) (pics : List Pic) (th : Option Thumb)
+    (ex : List Extra) (fo : Str) (kids : List Doc) :
+    paths (saveXml L false F ⟨id, mt, hs, pics, th, ex, fo, kids⟩) = F :: bodyPaths L F hs kids := by
+  cases hs <;> simp [saveXml, bodyPaths, xmlOwn]
+
+theorem paths_saveXml_top (L : Nat) (F : Str) (id : Nat) (mt : Str) (hs : Bool) (pics : List Pic) (th : Option Thumb)
+    (ex : List Extra) (fo : Str) (kids : List Doc) :
+    (paths (saveXml L true F ⟨id, mt, hs, pics, th, ex, fo, kids⟩)).Perm (sSlash :: sMeta :: bodyPaths L F hs kids) := by
+  cases hs <;> simp [saveXml, bodyPaths, xmlOwn]
+  · exact List.perm_middle (l₁ := [_, _])
+  · exact List.perm_middle (l₁ := [_, _, _])
+
+mutual
+theorem paths_perm (L : Nat) (F : Str) (d : Doc) (hp : Placed L F d) (hw : wf d = true) :
+    (bodyPaths L F d.hasSettings d.children ++ paths (savePics L F d) ++ paths (saveExtras L F d)).Perm
+      ((relAll d).map (F ++ ·)) := by
+  cases d with
+  | mk id mt hs pics th ex fo kids =>
+    simp only [wf, Bool.and_eq_true, List.all_eq_true] at hw
+    have ih := paths_permK L F ⟨id, mt, hs, pics, th, ex, fo, kids⟩ hp kids (fun c hc => by simpa using hw.1 c hc) hw.2
+    simp only [bodyPaths, savePics, saveExtras, paths_append, paths_picsOut, paths_extrasOut]
+    refine (perm_interleave3 _ _ _ _ _ _).trans ?_
+    simp only [relAll, givenNames, List.map_append, List.map_map, List.append_assoc]
+    have e1 : (List.map (fun p : Pic => F ++ p.href) pics) = List.map ((fun x => F ++ x) ∘ fun x : Pic => x.href) pics := rfl
+    have e2 : (List.map (fun e : Extra => F ++ e.filename) (liveExtras ex))
+        = List.map ((fun x => F ++ x) ∘ fun x : Extra => x.filename) (liveExtras ex) := rfl
+    rw [e1, e2]
+    refine List.Perm.append_left _ (List.Perm.append_left _ (List.Perm.append_left _ ?_))
+    simpa [List.append_assoc] using ih
+theorem paths_permK (L : Nat) (F : Str) (d : Doc) (hp : Placed L F d) (ds : List Doc)
+    (hk : ∀ c ∈ ds, c.folder = d.folder ++ sSlash ++ kidName d.folder c) (hw : wfs ds = true) :
+    (paths (saveXmlKids L ds) ++ paths (savePicsKids L ds) ++ paths (saveExtrasKids L ds)).Perm
+      ((relKids d.folder ds).map (F ++ ·)) := by
+  cases ds with
+  | nil => simp [saveXmlKids, savePicsKids, saveExtrasKids, relKids]
+  | cons c cs =>
+    simp only [wfs, Bool.and_eq_true] at hw
+    obtain ⟨hst, hpl⟩ := stor_child L F d c (kidName d.folder c) hp (hk c List.mem_cons_self)
+    have h1 := paths_perm L (stor L c) c hpl hw.1
+    have h2 := paths_permK L F d hp cs (fun x hx => hk x (List.mem_cons_of_mem _ hx)) hw.2
+    simp only [saveXmlKids, savePicsKids, saveExtrasKids, paths_append, relKids, List.map_append]
+    refine (perm_interleave3 _ _ _ _ _ _).trans ?_
+    refine List.Perm.append ?_ h2
+    cases c with
+    | mk cid cmt chs cpics cth cex cfo ckids =>
+      rw [paths_saveXml_sub]
+      simp only [List.cons_append, List.map_cons, List.map_map]
+      have e0 : F ++ (kidName d.folder ⟨cid, cmt, chs, cpics, cth, cex, cfo, ckids⟩ ++ sSlash ++ [])
+          = stor L ⟨cid, cmt, chs, cpics, cth, cex, cfo, ckids⟩ := by rw [hst]; simp
+      have e1 : ((fun x => F ++ x) ∘ fun x => kidName d.folder ⟨cid, cmt, chs, cpics, cth, cex, cfo, ckids⟩ ++ sSlash ++ x)
+          = (fun x => stor L ⟨cid, cmt, chs, cpics, cth, cex, cfo, ckids⟩ ++ x) := by
+        funext x; rw [hst]; simp
+      rw [e0, e1]
+      exact List.Perm.cons _ (by simpa [List.append_assoc] using h1)
+end
+
 
 theorem split_at_sep (c : Nat) : ∀ (a b x y : Str), c ∉ a → c ∉ b → a ++ c :: x = b ++ c :: y → a = b ∧ x = y := by
   intro a
@@ -438,41 +693,218 @@ theorem split_at_sep (c : Nat) : ∀ (a b x y : Str), c ∉ a → c ∉ b → a 
       have := ih bs x y ha.2 hb.2 h.2
       simp [h.1, this.1, this.2]
 
-/-- names under different `Object k/` folders differ -/
-theorem objPrefix_inj {k j : Nat} {a b : Str} (h : objPrefix k ++ a = objPrefix j ++ b) : k = j ∧ a = b := by
-  simp only [objPrefix, sSlash, List.append_assoc, List.singleton_append] at h
-  have h' := List.append_cancel_left h
-  have := split_at_sep 47 (dec k) (dec j) a b (dec_no_slash k) (dec_no_slash j) h'
-  exact ⟨dec_inj this.1, this.2⟩
+/-- a path lies in the folder of at most one sub-document -/
+theorem kid_prefix_unique (k k' n : Str) (h1 : 47 ∉ k) (h2 : 47 ∉ k') (p1 : (k ++ sSlash) <+: n)
+    (p2 : (k' ++ sSlash) <+: n) : k = k' := by
+  obtain ⟨a, ha⟩ := p1
+  obtain ⟨b, hb⟩ := p2
+  have : k ++ 47 :: a = k' ++ 47 :: b := by simpa [sSlash] using ha.trans hb.symm
+  exact (split_at_sep 47 k k' a b h1 h2 this).1
 
-/-! #### well-formedness of a document (decidable) -/
+theorem xmlOwn_reserved (top hs : Bool) : ∀ n ∈ xmlOwn hs, n ∈ reservedFor top := by
+  cases top <;> cases hs <;> decide
 
-/-- names the package layer generates itself -/
-def reserved : List Str := [sStyles, sContent, sSettings, sMeta, sMimetype, sThumb, sManifestPath]
+theorem xmlOwn_nodup (hs : Bool) : (xmlOwn hs).Nodup ∧ ∀ n ∈ xmlOwn hs, n ≠ [] := by
+  cases hs <;> decide
 
-/-- begins with "Object " -/
-def startsObj (s : Str) : Bool := s.take 7 == sObjectSp
-/-- ends with "/" -/
-def endsSlash (s : Str) : Bool := s.getLast? == some 47
+mutual
+theorem relAll_facts (top : Bool) (d : Doc) (h : treeOK top d = true) :
+    (relAll d).Nodup ∧ (∀ n ∈ relAll d, n ≠ []) ∧ (∀ r ∈ reservedFor top, r ∉ xmlOwn d.hasSettings → r ∉ relAll d) := by
+  cases d with
+  | mk id mt hs pics th ex fo kids =>
+    simp only [treeOK, nodeOK, Bool.and_eq_true, decide_eq_true_eq, List.all_eq_true, Bool.not_eq_true',
+      bne_iff_ne, beq_iff_eq] at h
+    obtain ⟨⟨⟨⟨⟨g1, g2⟩, g3⟩, _⟩, g5⟩, hks⟩ := h
+    have hk' : ∀ c ∈ kids, kidName fo c ≠ [] ∧ 47 ∉ kidName fo c := by
+      intro c hc
+      have := (g5 c hc).1.1
+      exact ⟨this.1, by simpa using this.2⟩
+    have rule : ∀ n ∈ reservedFor top ++ givenNames pics ex, ∀ c ∈ kids, ¬ (kidName fo c ++ sSlash) <+: n := by
+      intro n hn c hc hpre
+      have := (g5 c hc).2 n hn
+      rw [List.isPrefixOf_iff_prefix.mpr hpre] at this
+      cases this
+    obtain ⟨kn, kpre⟩ := relKids_facts fo kids hks g2 hk'
+    have gres : ∀ n ∈ givenNames pics ex, n ∉ reservedFor top := by
+      intro n hn hr
+      have := (g3 n hn).1
+      rw [List.contains_iff_mem.mpr hr] at this
+      cases this
+    refine ⟨?_, ?_, ?_⟩
+    · simp only [relAll]
+      rw [List.nodup_append, List.nodup_append]
+      refine ⟨⟨(xmlOwn_nodup hs).1, g1, ?_⟩, kn, ?_⟩
+      · intro a ha b hb hab
+        subst hab
+        exact gres a hb (xmlOwn_reserved top hs a ha)
+      · intro a ha b hb hab
+        subst hab
+        obtain ⟨c, hc, hpre⟩ := kpre a hb
+        rcases List.mem_append.mp ha with ha | ha
+        · exact rule a (List.mem_append_left _ (xmlOwn_reserved top hs a ha)) c hc hpre
+        · exact rule a (List.mem_append_right _ ha) c hc hpre
+    · intro n hn
+      simp only [relAll] at hn
+      rcases List.mem_append.mp hn with hn | hn
+      · rcases List.mem_append.mp hn with hn | hn
+        · exact (xmlOwn_nodup hs).2 n hn
+        · exact (g3 n hn).2
+      · obtain ⟨c, _, x, hx⟩ := kpre n hn
+        intro he; rw [he] at hx; simp [sSlash] at hx
+    · intro r hr hnot hin
+      simp only [relAll] at hin
+      rcases List.mem_append.mp hin with hin | hin
+      · rcases List.mem_append.mp hin with hin | hin
+        · exact hnot hin
+        · exact gres r hin hr
+      · obtain ⟨c, hc, hpre⟩ := kpre r hin
+        exact rule r (List.mem_append_left _ hr) c hc hpre
+theorem relKids_facts (fo : Str) (ds : List Doc) (h : treeOKs ds = true) (hnd : (ds.map (kidName fo)).Nodup)
+    (hk : ∀ c ∈ ds, kidName fo c ≠ [] ∧ 47 ∉ kidName fo c) :
+    (relKids fo ds).Nodup ∧ ∀ n ∈ relKids fo ds, ∃ c ∈ ds, (kidName fo c ++ sSlash) <+: n := by
+  cases ds with
+  | nil => simp [relKids]
+  | cons c cs =>
+    simp only [treeOKs, Bool.and_eq_true] at h
+    simp only [List.map_cons, List.nodup_cons] at hnd
+    obtain ⟨fn, fne, _⟩ := relAll_facts false c h.1
+    obtain ⟨rn, rpre⟩ := relKids_facts fo cs h.2 hnd.2 (fun x hx => hk x (List.mem_cons_of_mem _ hx))
+    have hpart : ∀ n ∈ ([] :: relAll c).map (fun x => kidName fo c ++ sSlash ++ x), (kidName fo c ++ sSlash) <+: n := by
+      intro n hn
+      simp only [List.mem_map] at hn
+      obtain ⟨x, _, rfl⟩ := hn
+      exact ⟨x, rfl⟩
+    refine ⟨?_, ?_⟩
+    · simp only [relKids]
+      rw [List.nodup_append]
+      refine ⟨?_, rn, ?_⟩
+      · have hn0 : ([] :: relAll c).Nodup := List.nodup_cons.mpr ⟨fun hin => fne [] hin rfl, fn⟩
+        exact List.Pairwise.map _ (fun a b hab heq => hab (List.append_cancel_left heq)) hn0
+      · intro a ha b hb hab
+        subst hab
+        obtain ⟨c', hc', hpre'⟩ := rpre a hb
+        have := kid_prefix_unique _ _ a (hk c List.mem_cons_self).2 (hk c' (List.mem_cons_of_mem _ hc')).2 (hpart a ha) hpre'
+        apply hnd.1
+        rw [this]
+        exact List.mem_map_of_mem hc'
+    · intro n hn
+      simp only [relKids] at hn
+      rcases List.mem_append.mp hn with hn | hn
+      · exact ⟨c, List.mem_cons_self, hpart n hn⟩
+      · obtain ⟨c', hc', hp⟩ := rpre n hn
+        exact ⟨c', List.mem_cons_of_mem _ hc', hp⟩
+end
 
-/-- a picture href: not a generated name, not inside an object folder -/
-def hrefOK (h : Str) : Bool := !reserved.contains h && !startsObj h
+theorem paths_thumbOut (t : Option Thumb) :
+    (paths (thumbOut t)).Nodup ∧ ∀ n ∈ paths (thumbOut t), n = sThumbDir ∨ n = sThumb := by
+  cases t <;> simp [thumbOut] <;> decide
+
+/-- the manifest paths of a saved package, up to order: "/", meta.xml, everything below the folder of the
+    document, and the thumbnail entries -/
+theorem paths_save_perm (d : Doc) (h : DocOK d = true) :
+    (paths (save d)).Perm (sSlash :: sMeta :: (relAll d ++ paths (thumbOut d.thumbnail))) := by
+  have hw := wf_of_treeOK true d h
+  have hp := paths_perm d.folder.length [] d (Or.inl ⟨rfl, rfl⟩) hw
+  cases d with
+  | mk id mt hs pics th ex fo kids =>
+    have ht := paths_saveXml_top fo.length [] id mt hs pics th ex fo kids
+    have e : paths (save ⟨id, mt, hs, pics, th, ex, fo, kids⟩)
+        = paths (saveXml fo.length true [] ⟨id, mt, hs, pics, th, ex, fo, kids⟩)
+          ++ (paths (savePics fo.length [] ⟨id, mt, hs, pics, th, ex, fo, kids⟩)
+          ++ (paths (thumbOut th) ++ paths (saveExtras fo.length [] ⟨id, mt, hs, pics, th, ex, fo, kids⟩))) := by
+      simp [save]
+    rw [e]
+    refine (List.Perm.append_right _ ht).trans ?_
+    simp only [List.cons_append]
+    refine List.Perm.cons _ (List.Perm.cons _ ?_)
+    -- move the thumbnail entries behind the extras
+    have hsw : (paths (thumbOut th) ++ paths (saveExtras fo.length [] ⟨id, mt, hs, pics, th, ex, fo, kids⟩)).Perm
+        (paths (saveExtras fo.length [] ⟨id, mt, hs, pics, th, ex, fo, kids⟩) ++ paths (thumbOut th)) := List.perm_append_comm
+    refine (List.Perm.append_left _ (List.Perm.append_left _ hsw)).trans ?_
+    rw [← List.append_assoc, ← List.append_assoc]
+    refine List.Perm.append_right _ ?_
+    have : (List.map (fun x => [] ++ x) (relAll ⟨id, mt, hs, pics, th, ex, fo, kids⟩)) = relAll ⟨id, mt, hs, pics, th, ex, fo, kids⟩ := by
+      simp
+    rw [← this]
+    simpa [List.append_assoc] using hp
+
+/-- the four generated top-level names, everything below the document's folder, and the thumbnail entries are
+    pairwise distinct -/
+theorem top_paths_nodup (d : Doc) (h : DocOK d = true) :
+    (sMimetype :: sManifestPath :: sSlash :: sMeta :: (relAll d ++ paths (thumbOut d.thumbnail))).Nodup := by
+  obtain ⟨rn, _, rres⟩ := relAll_facts true d h
+  obtain ⟨tn, tmem⟩ := paths_thumbOut d.thumbnail
+  have hnotown : ∀ r ∈ [sMeta, sMimetype, sThumb, sManifestPath, sSlash, sThumbDir], r ∉ xmlOwn d.hasSettings := by
+    cases d.hasSettings <;> decide
+  have hrel : ∀ r ∈ [sMeta, sMimetype, sThumb, sManifestPath, sSlash, sThumbDir], r ∉ relAll d := by
+    intro r hr
+    refine rres r ?_ (hnotown r hr)
+    simp only [reservedFor, if_true]
+    simp only [List.mem_cons, List.not_mem_nil, or_false] at hr ⊢
+    rcases hr with rfl | rfl | rfl | rfl | rfl | rfl <;> simp
+  have hRT : (relAll d ++ paths (thumbOut d.thumbnail)).Nodup := by
+    rw [List.nodup_append]
+    refine ⟨rn, tn, ?_⟩
+    intro a ha b hb hab
+    subst hab
+    rcases tmem a hb with rfl | rfl
+    · exact hrel _ (by simp) ha
+    · exact hrel _ (by simp) ha
+  have hnot : ∀ r ∈ [sMimetype, sManifestPath, sSlash, sMeta], r ∉ relAll d ++ paths (thumbOut d.thumbnail) := by
+    intro r hr hin
+    rcases List.mem_append.mp hin with hin | hin
+    · refine hrel r ?_ hin
+      simp only [List.mem_cons, List.not_mem_nil, or_false] at hr ⊢
+      rcases hr with rfl | rfl | rfl | rfl <;> simp
+    · simp only [List.mem_cons, List.not_mem_nil, or_false] at hr
+      rcases tmem r hin with h1 | h1 <;> rcases hr with rfl | rfl | rfl | rfl <;> revert h1 <;> decide
+  rw [List.nodup_cons, List.nodup_cons, List.nodup_cons, List.nodup_cons]
+  refine ⟨?_, ?_, ?_, ?_, hRT⟩
+  · simp only [List.mem_cons, not_or]
+    exact ⟨by decide, by decide, by decide, hnot _ (by simp)⟩
+  · simp only [List.mem_cons, not_or]
+    exact ⟨by decide, by decide, hnot _ (by simp)⟩
+  · simp only [List.mem_cons, not_or]
+    exact ⟨by decide, hnot _ (by simp)⟩
+  · exact hnot _ (by simp)
+
+/-- **C03 (no manifest path twice; in particular exactly one root entry)**: under `DocOK d` the manifest of
+    the saved package lists every path once — file entries and folder entries, object trees of any depth,
+    pictures and extras of sub-documents included. -/
+theorem manifest_nodup (d : Doc) (h : DocOK d = true) : (paths (save d)).Nodup := by
+  have := top_paths_nodup d h
+  rw [List.nodup_cons, List.nodup_cons] at this
+  exact (List.Perm.nodup_iff (paths_save_perm d h)).mpr this.2.2
+
+/-- **C03 (no member name twice)**: under `DocOK d` the member names of the saved package are pairwise
+    distinct — for object trees of any depth. -/
+theorem names_nodup (d : Doc) (h : DocOK d = true) : (names (save d)).Nodup := by
+  have hall := top_paths_nodup d h
+  have hperm := paths_save_perm d h
+  have hall' : (sMimetype :: sManifestPath :: paths (save d)).Nodup :=
+    (List.Perm.nodup_iff (List.Perm.cons _ (List.Perm.cons _ hperm))).mpr hall
+  have hsub : (filePaths (save d)).Sublist (paths (save d)) := by
+    unfold filePaths fileEntries paths
+    exact List.Sublist.map _ List.filter_sublist
+  rw [List.nodup_cons, List.nodup_cons] at hall'
+  obtain ⟨h1, h2, h3⟩ := hall'
+  rw [manifest_exact_ordered, List.nodup_cons, List.nodup_append]
+  refine ⟨?_, List.Nodup.sublist hsub h3, by simp, ?_⟩
+  · simp only [List.mem_append, List.mem_singleton, not_or]
+    exact ⟨fun hin => h1 (List.mem_cons_of_mem _ (hsub.subset hin)), by decide⟩
+  · intro a ha b hb hab
+    simp at hb; subst hb; subst hab
+    exact h2 (hsub.subset ha)
+
+
+/-! ### folder entries are exactly the manifest paths that end in "/" -/
+
 /-- a picture href that does not look like a directory: not ending in "/", not empty -/
 def hrefPlain (h : Str) : Bool := !endsSlash h && !h.isEmpty
 
-def picsOK (ps : List Pic) : Bool := decide (ps.map (·.href)).Nodup && ps.all (fun p => hrefOK p.href)
-
 mutual
-def treeOK : Doc → Bool
-  | ⟨_, _, _, pics, _, _, _, kids⟩ => picsOK pics && treeOKs kids
-def treeOKs : List Doc → Bool
-  | [] => true
-  | c :: cs => treeOK c && treeOKs cs
-end
-
-mutual
-/-- **`plainHrefs d`** — the extra decidable hypothesis of `folder_iff_slash` / `manifest_nodup`: no picture
-    href of any document of the tree ends in "/" or is empty -/
+/-- **`plainHrefs d`** — the extra decidable hypothesis of `folder_iff_slash`: no picture href of any document
+    of the tree ends in "/" or is empty -/
 def plainHrefs : Doc → Bool
   | ⟨_, _, _, pics, _, _, _, kids⟩ => pics.all (fun p => hrefPlain p.href) && plainHrefsK kids
 def plainHrefsK : List Doc → Bool
@@ -480,310 +912,13 @@ def plainHrefsK : List Doc → Bool
   | c :: cs => plainHrefs c && plainHrefsK cs
 end
 
-/-- the extras that `save` writes -/
-def liveExtras (d : Doc) : List Extra := d.extras.filter (fun e => e.filename ≠ sDocSig)
-
-/-- an extra: not a generated name, not inside an object folder, not the name of a picture of the top
-    document, not one of the folder entries save generates; None content exactly for directory names -/
-def extraOK (hrefs : List Str) (e : Extra) : Bool :=
-  !reserved.contains e.filename && !startsObj e.filename && !hrefs.contains e.filename
-  && e.filename != sSlash && e.filename != sThumbDir && (e.content.isNone == endsSlash e.filename)
-
-/-- **`DocOK d`** — the decidable well-formedness hypothesis of `names_nodup` and `manifest_nodup`:
-    in every document of the tree the picture hrefs are pairwise distinct (they are dict keys), none
-    is a generated name or begins with "Object "; the extras of the top document have
-    pairwise distinct names, none generated, none beginning with "Object ", none equal to a picture
-    href of the top document, to "/" or to "Thumbnails/", and content None exactly for names ending
-    in "/". -/
-def DocOK (d : Doc) : Bool :=
-  treeOK d && decide ((liveExtras d).map (·.filename)).Nodup
-  && (liveExtras d).all (extraOK (d.pictures.map (·.href)))
-
-/-! #### names relative to an object's folder -/
-
-mutual
-def relNames : Doc → List Str
-  | ⟨_, _, hs, pics, _, _, _, kids⟩ =>
-    ([sStyles, sContent] ++ (if hs then [sSettings] else [])) ++ pics.map (·.href) ++ relNamesK 1 kids
-def relNamesK (k : Nat) : List Doc → List Str
-  | [] => []
-  | c :: cs => (relNames c).map (objPrefix k ++ ·) ++ relNamesK (k+1) cs
-end
-
-theorem perm_interleave {α} (a b c d : List α) : ((a ++ b) ++ (c ++ d)).Perm ((a ++ c) ++ (b ++ d)) := by
-  simp only [List.append_assoc]
-  apply List.Perm.append_left
-  rw [← List.append_assoc, ← List.append_assoc]
-  exact List.Perm.append_right _ List.perm_append_comm
-
-theorem names_picsOut (F : Str) (ps : List Pic) : names (picsOut F ps) = ps.map (fun p => F ++ p.href) := by
-  induction ps with
-  | nil => simp [picsOut]
-  | cons p ps ih => simp [picsOut, picOut, ih]
-
-mutual
-theorem names_perm (F : Str) (d : Doc) :
-    (names (saveXml false F d) ++ names (savePics F d)).Perm ((relNames d).map (F ++ ·)) := by
-  cases d with
-  | mk id mt hs pics th ex fo kids =>
-    have ih := names_permK F 1 kids
-    have e1 : names (saveXml false F ⟨id, mt, hs, pics, th, ex, fo, kids⟩)
-        = ([sStyles, sContent] ++ (if hs then [sSettings] else [])).map (F ++ ·) ++ names (saveXmlKids F 1 kids) := by
-      cases hs <;> simp [saveXml]
-    have e2 : names (savePics F ⟨id, mt, hs, pics, th, ex, fo, kids⟩)
-        = (pics.map (·.href)).map (F ++ ·) ++ names (savePicsKids F 1 kids) := by
-      simp [savePics, names_picsOut]
-    rw [e1, e2]
-    refine (perm_interleave _ _ _ _).trans ?_
-    simp only [relNames, List.map_append]
-    exact List.Perm.append_left _ ih
-theorem names_permK (F : Str) (k : Nat) (ds : List Doc) :
-    (names (saveXmlKids F k ds) ++ names (savePicsKids F k ds)).Perm ((relNamesK k ds).map (F ++ ·)) := by
-  cases ds with
-  | nil => simp [saveXmlKids, savePicsKids, relNamesK]
-  | cons c cs =>
-    have h1 := names_perm (F ++ objPrefix k) c
-    have h2 := names_permK F (k+1) cs
-    simp only [saveXmlKids, savePicsKids, names_append, relNamesK, List.map_append, List.map_map]
-    refine (perm_interleave _ _ _ _).trans ?_
-    refine List.Perm.append ?_ h2
-    have : (fun x => F ++ objPrefix k ++ x) = ((fun x => F ++ x) ∘ fun x => objPrefix k ++ x) := by
-      funext x; simp
-    rw [← this]; exact h1
-end
-
-theorem mem_ownXml {hs : Bool} {a : Str} (h : a ∈ [sStyles, sContent] ++ (if hs = true then [sSettings] else [])) :
-    a = sStyles ∨ a = sContent ∨ a = sSettings := by
-  cases hs <;> simp at h <;> rcases h with h | h | h <;> simp [*]
-
-theorem startsObj_objPrefix (k : Nat) (r : Str) : startsObj (objPrefix k ++ r) = true := by
-  simp [startsObj, objPrefix, sObjectSp]
-
-theorem relNamesK_shape : ∀ (ds : List Doc) (k : Nat), ∀ n ∈ relNamesK k ds, ∃ j r, k ≤ j ∧ n = objPrefix j ++ r := by
-  intro ds
-  induction ds with
-  | nil => intro k n hn; simp [relNamesK] at hn
-  | cons c cs ih =>
-    intro k n hn
-    simp only [relNamesK, List.mem_append, List.mem_map] at hn
-    rcases hn with ⟨r, _, rfl⟩ | hn
-    · exact ⟨k, r, Nat.le_refl k, rfl⟩
-    · obtain ⟨j, r, hj, rfl⟩ := ih (k+1) n hn
-      exact ⟨j, r, by omega, rfl⟩
-
-mutual
-theorem nodup_rel (d : Doc) (h : treeOK d = true) : (relNames d).Nodup := by
-  cases d with
-  | mk id mt hs pics th ex fo kids =>
-    simp only [treeOK, picsOK, Bool.and_eq_true, decide_eq_true_eq, List.all_eq_true] at h
-    obtain ⟨⟨hnd, hok⟩, hk⟩ := h
-    have ihk := nodup_relK 1 kids hk
-    have hK : ∀ n ∈ relNamesK 1 kids, startsObj n = true := by
-      intro n hn
-      obtain ⟨j, r, _, rfl⟩ := relNamesK_shape kids 1 n hn
-      exact startsObj_objPrefix j r
-    have hH : ∀ n ∈ pics.map (·.href), hrefOK n = true := by
-      intro n hn
-      simp only [List.mem_map] at hn
-      obtain ⟨p, hp, rfl⟩ := hn
-      exact hok p hp
-    simp only [relNames]
-    rw [List.nodup_append, List.nodup_append]
-    refine ⟨⟨?_, hnd, ?_⟩, ihk, ?_⟩
-    · cases hs <;> decide
-    · intro a ha b hb hab
-      subst hab
-      have := hH a hb
-      simp only [hrefOK, Bool.and_eq_true, Bool.not_eq_true'] at this
-      have hr : reserved.contains a = true := by
-        rcases mem_ownXml ha with rfl | rfl | rfl <;> decide
-      rw [this.1] at hr; cases hr
-    · intro a ha b hb hab
-      subst hab
-      have hs' := hK a hb
-      rcases List.mem_append.mp ha with ha | ha
-      · have : startsObj a = false := by
-          rcases mem_ownXml ha with rfl | rfl | rfl <;> decide
-        rw [this] at hs'; cases hs'
-      · have := hH a ha
-        simp only [hrefOK, Bool.and_eq_true, Bool.not_eq_true'] at this
-        rw [this.2] at hs'; cases hs'
-theorem nodup_relK (k : Nat) (ds : List Doc) (h : treeOKs ds = true) : (relNamesK k ds).Nodup := by
-  cases ds with
-  | nil => simp [relNamesK]
-  | cons c cs =>
-    simp only [treeOKs, Bool.and_eq_true] at h
-    have h1 := nodup_rel c h.1
-    have h2 := nodup_relK (k+1) cs h.2
-    simp only [relNamesK]
-    rw [List.nodup_append]
-    refine ⟨?_, h2, ?_⟩
-    · exact List.Pairwise.map _ (fun a b hab heq => hab (List.append_cancel_left heq)) h1
-    · intro a ha b hb hab
-      subst hab
-      simp only [List.mem_map] at ha
-      obtain ⟨r, _, rfl⟩ := ha
-      obtain ⟨j, r', hj, heq⟩ := relNamesK_shape cs (k+1) _ hb
-      have := (objPrefix_inj heq).1
-      omega
-end
-
-
-theorem relNames_shape (d : Doc) : ∀ n ∈ relNames d,
-    n ∈ [sStyles, sContent, sSettings] ∨ n ∈ d.pictures.map (·.href) ∨ startsObj n = true := by
-  cases d with
-  | mk id mt hs pics th ex fo kids =>
-    intro n hn
-    simp only [relNames] at hn
-    rcases List.mem_append.mp hn with hn | hn
-    · rcases List.mem_append.mp hn with hn | hn
-      · left; rcases mem_ownXml hn with rfl | rfl | rfl <;> simp
-      · right; left; exact hn
-    · right; right
-      obtain ⟨j, r, _, rfl⟩ := relNamesK_shape kids 1 n hn
-      exact startsObj_objPrefix j r
-
-theorem names_saveXml_top (F : Str) (d : Doc) :
-    (names (saveXml true F d)).Perm (sMeta :: names (saveXml false F d)) := by
-  cases d with
-  | mk id mt hs pics th ex fo kids =>
-    cases hs <;> simp [saveXml]
-    · exact List.perm_middle (l₁ := [_, _])
-    · exact List.perm_middle (l₁ := [_, _, _])
-
-theorem names_extrasOut (es : List Extra) :
-    names (extrasOut es)
-      = ((es.filter (fun e => e.filename ≠ sDocSig)).filter (fun e => e.content.isSome)).map (·.filename) := by
-  induction es with
-  | nil => simp [extrasOut]
-  | cons e es ih =>
-    simp only [extrasOut, names_append, ih]
-    unfold extraOut
-    by_cases h : e.filename = sDocSig
-    · simp [h]
-    · cases hc : e.content <;> simp [h, hc]
-
-theorem names_thumbOut (t : Option Thumb) : ∀ n ∈ names (thumbOut t), n = sThumb := by
-  cases t <;> simp [thumbOut]
-
-theorem nodup_thumbOut (t : Option Thumb) : (names (thumbOut t)).Nodup := by
-  cases t <;> simp [thumbOut]
-
-/-- **C03 (no member name twice)**: under `DocOK d` the member names of the saved package are pairwise
-    distinct — for object trees of any depth. -/
-theorem names_nodup (d : Doc) (h : DocOK d = true) : (names (save d)).Nodup := by
-  have hp : (names (save d)).Perm (sMimetype :: sMeta :: (relNames d
-      ++ (names (thumbOut d.thumbnail) ++ (names (extrasOut d.extras) ++ [sManifestPath])))) := by
-    have h1 := names_perm [] d
-    have h2 := names_saveXml_top [] d
-    have e : names (save d) = sMimetype :: ((names (saveXml true [] d) ++ names (savePics [] d))
-        ++ (names (thumbOut d.thumbnail) ++ (names (extrasOut d.extras) ++ [sManifestPath]))) := by
-      simp [save]
-    rw [e]
-    refine List.Perm.cons _ ?_
-    have h3 : (names (saveXml true [] d) ++ names (savePics [] d)).Perm (sMeta :: relNames d) := by
-      refine (List.Perm.append_right _ h2).trans ?_
-      simp only [List.cons_append]
-      refine List.Perm.cons _ ?_
-      simpa using h1
-    exact (List.Perm.append_right _ h3)
-  refine (List.Perm.nodup_iff hp).mpr ?_
-  simp only [DocOK, Bool.and_eq_true, decide_eq_true_eq, List.all_eq_true] at h
-  obtain ⟨⟨hT, hEnd⟩, hEok⟩ := h
-  have hR := nodup_rel d hT
-  have hshape := relNames_shape d
-  have hhref : ∀ n ∈ d.pictures.map (·.href), hrefOK n = true := by
-    cases d with
-    | mk id mt hs pics th ex fo kids =>
-      simp only [treeOK, picsOK, Bool.and_eq_true, decide_eq_true_eq, List.all_eq_true] at hT
-      intro n hn
-      simp only [List.mem_map] at hn
-      obtain ⟨p, hp, rfl⟩ := hn
-      exact hT.1.2 p hp
-  -- a reserved, non-"Object " name is not among the relative names
-  have hres : ∀ n, reserved.contains n = true → startsObj n = false → n ≠ sStyles → n ≠ sContent → n ≠ sSettings
-      → n ∉ relNames d := by
-    intro n hr hs h1 h2 h3 hn
-    rcases hshape n hn with hm | hm | hm
-    · simp at hm; rcases hm with rfl | rfl | rfl <;> simp_all
-    · have := hhref n hm
-      simp only [hrefOK, Bool.and_eq_true, Bool.not_eq_true'] at this
-      rw [this.1] at hr; cases hr
-    · rw [hs] at hm; cases hm
-  -- what is known about the names of the extras
-  have hE : ∀ n ∈ names (extrasOut d.extras),
-      reserved.contains n = false ∧ startsObj n = false ∧ n ∉ d.pictures.map (·.href) := by
-    intro n hn
-    rw [names_extrasOut] at hn
-    simp only [List.mem_map, List.mem_filter] at hn
-    obtain ⟨e, ⟨⟨he, hne⟩, _⟩, rfl⟩ := hn
-    have := hEok e (by simp [liveExtras, he]; simpa using hne)
-    simp only [extraOK, Bool.and_eq_true, Bool.not_eq_true'] at this
-    refine ⟨this.1.1.1.1.1, this.1.1.1.1.2, ?_⟩
-    have h3 := this.1.1.1.2
-    intro hc
-    have : (d.pictures.map (·.href)).contains e.filename = true := by simpa using hc
-    rw [this] at h3; cases h3
-  have hEnodup : (names (extrasOut d.extras)).Nodup := by
-    rw [names_extrasOut]
-    exact List.Nodup.sublist (List.Sublist.map _ List.filter_sublist) hEnd
-  have hEnotrel : ∀ n ∈ names (extrasOut d.extras), n ∉ relNames d := by
-    intro n hn hrel
-    obtain ⟨h1, h2, h3⟩ := hE n hn
-    rcases hshape n hrel with hm | hm | hm
-    · have : reserved.contains n = true := by simp at hm; rcases hm with rfl | rfl | rfl <;> decide
-      rw [h1] at this; cases this
-    · exact h3 hm
-    · rw [h2] at hm; cases hm
-  have hEnotres : ∀ n ∈ names (extrasOut d.extras), ∀ r, reserved.contains r = true → n ≠ r := by
-    intro n hn r hr heq
-    subst heq
-    rw [(hE n hn).1] at hr; cases hr
-  have hTh := names_thumbOut d.thumbnail
-  -- assemble
-  rw [List.nodup_cons, List.nodup_cons, List.nodup_append, List.nodup_append, List.nodup_append]
-  refine ⟨?_, ?_, hR, ⟨nodup_thumbOut _, ⟨hEnodup, by simp, ?_⟩, ?_⟩, ?_⟩
-  · -- mimetype
-    simp only [List.mem_cons, List.mem_append, not_or]
-    refine ⟨by decide, hres _ (by decide) (by decide) (by decide) (by decide) (by decide), ?_, ?_, by decide⟩
-    · intro hc; have := hTh _ hc; revert this; decide
-    · intro hc; exact hEnotres _ hc sMimetype (by decide) rfl
-  · -- meta.xml
-    simp only [List.mem_append, not_or]
-    refine ⟨hres _ (by decide) (by decide) (by decide) (by decide) (by decide), ?_, ?_, by decide⟩
-    · intro hc; have := hTh _ hc; revert this; decide
-    · intro hc; exact hEnotres _ hc sMeta (by decide) rfl
-  · -- extras vs manifest
-    intro a ha b hb
-    simp at hb; subst hb
-    exact hEnotres a ha sManifestPath (by decide)
-  · -- thumbnail vs extras, manifest
-    intro a ha b hb
-    have := hTh a ha; subst this
-    rcases List.mem_append.mp hb with hb | hb
-    · exact fun heq => hEnotres b hb sThumb (by decide) heq.symm
-    · simp at hb; subst hb; decide
-  · -- relative names vs thumbnail, extras, manifest
-    intro a ha b hb heq
-    subst heq
-    rcases List.mem_append.mp hb with hb | hb
-    · have := hTh a hb; subst this
-      exact hres _ (by decide) (by decide) (by decide) (by decide) (by decide) ha
-    · rcases List.mem_append.mp hb with hb | hb
-      · exact hEnotrel a hb ha
-      · simp at hb; subst hb
-        exact hres _ (by decide) (by decide) (by decide) (by decide) (by decide) ha
-
-
-/-! ### folder entries are exactly the manifest paths that end in "/" ; no manifest path twice -/
-
 theorem endsSlash_append (F h : Str) (hne : h ≠ []) : endsSlash (F ++ h) = endsSlash h := by
   cases hl : h.getLast? with
   | none => exact absurd (List.getLast?_eq_none_iff.mp hl) hne
   | some x => simp [endsSlash, List.getLast?_append, hl]
 
-theorem endsSlash_objPrefix (F : Str) (k : Nat) : endsSlash (F ++ objPrefix k) = true := by
-  simp [endsSlash, objPrefix, sSlash, List.getLast?_append]
+theorem endsSlash_stor (L : Nat) (c : Doc) : endsSlash (stor L c) = true := by
+  simp [endsSlash, stor, sSlash, List.getLast?_append]
 
 /-- every manifest entry of `o` is tagged as folder entry iff its path ends in "/" -/
 def SlashOK (o : Out) : Prop := ∀ e ∈ o.man, e.isFolder = endsSlash e.path
@@ -805,8 +940,8 @@ theorem slashOK_xmlPart (F : Str) (k : PartKind) (n : Str) (i : Nat) (hn : n ≠
   simp [endsSlash_append F n hn, hs]
 
 mutual
-theorem slashOK_saveXml (top : Bool) (F : Str) (d : Doc) (hF : top = true ∨ endsSlash F = true) :
-    SlashOK (saveXml top F d) := by
+theorem slashOK_saveXml (L : Nat) (top : Bool) (F : Str) (d : Doc) (hF : top = true ∨ endsSlash F = true) :
+    SlashOK (saveXml L top F d) := by
   cases d with
   | mk id mt hs pics th ex fo kids =>
     simp only [saveXml]
@@ -826,13 +961,13 @@ theorem slashOK_saveXml (top : Bool) (F : Str) (d : Doc) (hF : top = true ∨ en
     · cases top
       · exact slashOK_empty
       · intro e he; simp at he; subst he; decide
-    · exact slashOK_saveXmlKids F 1 kids
-theorem slashOK_saveXmlKids (F : Str) (k : Nat) (ds : List Doc) : SlashOK (saveXmlKids F k ds) := by
+    · exact slashOK_saveXmlKids L kids
+theorem slashOK_saveXmlKids (L : Nat) (ds : List Doc) : SlashOK (saveXmlKids L ds) := by
   cases ds with
   | nil => exact slashOK_empty
   | cons c cs =>
     simp only [saveXmlKids]
-    exact SlashOK.append (slashOK_saveXml false _ c (Or.inr (endsSlash_objPrefix F k))) (slashOK_saveXmlKids F (k+1) cs)
+    exact SlashOK.append (slashOK_saveXml L false _ c (Or.inr (endsSlash_stor L c))) (slashOK_saveXmlKids L cs)
 end
 
 theorem slashOK_picsOut (F : Str) (ps : List Pic) (h : ∀ p ∈ ps, hrefPlain p.href = true) : SlashOK (picsOut F ps) := by
@@ -848,24 +983,25 @@ theorem slashOK_picsOut (F : Str) (ps : List Pic) (h : ∀ p ∈ ps, hrefPlain p
     simp [endsSlash_append F p.href this.2, this.1]
 
 mutual
-theorem slashOK_savePics (F : Str) (d : Doc) (h : plainHrefs d = true) : SlashOK (savePics F d) := by
+theorem slashOK_savePics (L : Nat) (F : Str) (d : Doc) (h : plainHrefs d = true) : SlashOK (savePics L F d) := by
   cases d with
   | mk id mt hs pics th ex fo kids =>
     simp only [plainHrefs, Bool.and_eq_true, List.all_eq_true] at h
     simp only [savePics]
-    exact SlashOK.append (slashOK_picsOut F pics h.1) (slashOK_savePicsKids F 1 kids h.2)
-theorem slashOK_savePicsKids (F : Str) (k : Nat) (ds : List Doc) (h : plainHrefsK ds = true) :
-    SlashOK (savePicsKids F k ds) := by
+    exact SlashOK.append (slashOK_picsOut F pics h.1) (slashOK_savePicsKids L kids h.2)
+theorem slashOK_savePicsKids (L : Nat) (ds : List Doc) (h : plainHrefsK ds = true) :
+    SlashOK (savePicsKids L ds) := by
   cases ds with
   | nil => exact slashOK_empty
   | cons c cs =>
     simp only [plainHrefsK, Bool.and_eq_true] at h
     simp only [savePicsKids]
-    exact SlashOK.append (slashOK_savePics _ c h.1) (slashOK_savePicsKids F (k+1) cs h.2)
+    exact SlashOK.append (slashOK_savePics L _ c h.1) (slashOK_savePicsKids L cs h.2)
 end
 
-theorem slashOK_extrasOut (hrefs : List Str) (es : List Extra)
-    (h : ∀ e ∈ es, e.filename ≠ sDocSig → extraOK hrefs e = true) : SlashOK (extrasOut es) := by
+theorem slashOK_extrasOut (F : Str) (es : List Extra)
+    (h : ∀ e ∈ es, e.filename ≠ sDocSig → e.filename ≠ [] ∧ (e.content.isNone == endsSlash e.filename) = true) :
+    SlashOK (extrasOut F es) := by
   induction es with
   | nil => exact slashOK_empty
   | cons x xs ih =>
@@ -874,190 +1010,55 @@ theorem slashOK_extrasOut (hrefs : List Str) (es : List Extra)
     unfold extraOut
     by_cases hx : x.filename = sDocSig
     · simp [hx]; exact slashOK_empty
-    · have := h x List.mem_cons_self hx
-      simp only [extraOK, Bool.and_eq_true, beq_iff_eq] at this
-      have hc := this.2
+    · obtain ⟨hne, hc⟩ := h x List.mem_cons_self hx
       intro e he
       cases hcc : x.content with
-      | none => simp [hx, hcc] at he; subst he; simpa [hcc] using hc
-      | some b => simp [hx, hcc] at he; subst he; simpa [hcc] using hc
+      | none => simp [hx, hcc] at he; subst he; simpa [hcc, endsSlash_append F x.filename hne] using hc
+      | some b => simp [hx, hcc] at he; subst he; simpa [hcc, endsSlash_append F x.filename hne] using hc
 
-/-- **C03 (folder entries, syntactically)**: under `DocOK d` and `plainHrefs d` a manifest entry is one of the folder
-    entries of `folder_entries` exactly when its path ends in "/" — so a reader of the package can tell
+theorem extras_facts_of_nodeOK (top : Bool) (pics : List Pic) (ex : List Extra) (fo : Str) (kids : List Doc)
+    (h : nodeOK top pics ex fo kids = true) :
+    ∀ e ∈ ex, e.filename ≠ sDocSig → e.filename ≠ [] ∧ (e.content.isNone == endsSlash e.filename) = true := by
+  simp only [nodeOK, Bool.and_eq_true, decide_eq_true_eq, List.all_eq_true, Bool.not_eq_true', bne_iff_ne] at h
+  intro e he hne
+  have hl : e ∈ liveExtras ex := by simp [liveExtras, he, hne]
+  refine ⟨(h.1.1.2 e.filename ?_).2, h.1.2 e hl⟩
+  simp only [givenNames, List.mem_append, List.mem_map]
+  exact Or.inr ⟨e, hl, rfl⟩
+
+mutual
+theorem slashOK_saveExtras (L : Nat) (top : Bool) (F : Str) (d : Doc) (h : treeOK top d = true) :
+    SlashOK (saveExtras L F d) := by
+  cases d with
+  | mk id mt hs pics th ex fo kids =>
+    simp only [treeOK, Bool.and_eq_true] at h
+    simp only [saveExtras]
+    exact SlashOK.append (slashOK_extrasOut F ex (extras_facts_of_nodeOK top pics ex fo kids h.1))
+      (slashOK_saveExtrasKids L kids h.2)
+theorem slashOK_saveExtrasKids (L : Nat) (ds : List Doc) (h : treeOKs ds = true) : SlashOK (saveExtrasKids L ds) := by
+  cases ds with
+  | nil => exact slashOK_empty
+  | cons c cs =>
+    simp only [treeOKs, Bool.and_eq_true] at h
+    simp only [saveExtrasKids]
+    exact SlashOK.append (slashOK_saveExtras L false _ c h.1) (slashOK_saveExtrasKids L cs h.2)
+end
+
+/-- **C03 (folder entries, syntactically)**: under `DocOK d` and `plainHrefs d` a manifest entry is one of the
+    folder entries of `folder_entries` exactly when its path ends in "/" — so a reader of the package can tell
     the two kinds apart, and `manifest_exact` speaks about all paths not ending in "/". -/
 theorem folder_iff_slash (d : Doc) (h : DocOK d = true) (hp : plainHrefs d = true) :
     ∀ e ∈ (save d).man, e.isFolder = endsSlash e.path := by
-  simp only [DocOK, Bool.and_eq_true, decide_eq_true_eq, List.all_eq_true] at h
-  obtain ⟨_, hEok⟩ := h
-  have hx : SlashOK (extrasOut d.extras) := by
-    apply slashOK_extrasOut (d.pictures.map (·.href))
-    intro e he hne
-    exact hEok e (by simp [liveExtras, he]; simpa using hne)
   have hth : SlashOK (thumbOut d.thumbnail) := by
     cases d.thumbnail with
     | none => exact slashOK_empty
     | some b => intro e he; simp [thumbOut] at he; rcases he with rfl | rfl <;> simp <;> decide
   have h0 : ∀ z, SlashOK (emZ z) := by intro z e he; simp at he
   exact SlashOK.append (SlashOK.append (SlashOK.append (SlashOK.append (SlashOK.append (h0 _)
-    (slashOK_saveXml true [] d (Or.inl rfl))) (slashOK_savePics [] d hp)) hth) hx) (h0 _)
+    (slashOK_saveXml _ true [] d (Or.inl rfl))) (slashOK_savePics _ [] d hp)) hth)
+    (slashOK_saveExtras _ true [] d h)) (h0 _)
 
-
-mutual
-/-- object folders relative to a document's own folder ("" = the document itself) -/
-def relFolders1 : Doc → List Str
-  | ⟨_, _, _, _, _, _, _, kids⟩ => [] :: relFolders 1 kids
-def relFolders (k : Nat) : List Doc → List Str
-  | [] => []
-  | c :: cs => (relFolders1 c).map (objPrefix k ++ ·) ++ relFolders (k+1) cs
-end
-
-mutual
-theorem objFolder_paths (F : Str) (k : Nat) (ds : List Doc) :
-    (objFolderEntries F k ds).map (·.path) = (relFolders k ds).map (F ++ ·) := by
-  cases ds with
-  | nil => simp [objFolderEntries, relFolders]
-  | cons c cs =>
-    simp [objFolderEntries, relFolders, objFolder1_paths (F ++ objPrefix k) c, objFolder_paths F (k+1) cs]
-theorem objFolder1_paths (F : Str) (d : Doc) :
-    (objFolderEntries1 F d).map (·.path) = (relFolders1 d).map (F ++ ·) := by
-  cases d with
-  | mk id mt hs pics th ex fo kids =>
-    simp [objFolderEntries1, relFolders1, objFolder_paths F 1 kids]
-end
-
-theorem relFolders_shape : ∀ (ds : List Doc) (k : Nat), ∀ n ∈ relFolders k ds, ∃ j r, k ≤ j ∧ n = objPrefix j ++ r := by
-  intro ds
-  induction ds with
-  | nil => intro k n hn; simp [relFolders] at hn
-  | cons c cs ih =>
-    intro k n hn
-    simp only [relFolders, List.mem_append, List.mem_map] at hn
-    rcases hn with ⟨r, _, rfl⟩ | hn
-    · exact ⟨k, r, Nat.le_refl k, rfl⟩
-    · obtain ⟨j, r, hj, rfl⟩ := ih (k+1) n hn
-      exact ⟨j, r, by omega, rfl⟩
-
-mutual
-theorem nodup_relFolders1 (d : Doc) : (relFolders1 d).Nodup := by
-  cases d with
-  | mk id mt hs pics th ex fo kids =>
-    simp only [relFolders1, List.nodup_cons]
-    refine ⟨?_, nodup_relFolders 1 kids⟩
-    intro hn
-    obtain ⟨j, r, _, h⟩ := relFolders_shape kids 1 [] hn
-    simp [objPrefix, sObjectSp] at h
-theorem nodup_relFolders (k : Nat) (ds : List Doc) : (relFolders k ds).Nodup := by
-  cases ds with
-  | nil => simp [relFolders]
-  | cons c cs =>
-    simp only [relFolders]
-    rw [List.nodup_append]
-    refine ⟨?_, nodup_relFolders (k+1) cs, ?_⟩
-    · exact List.Pairwise.map _ (fun a b hab heq => hab (List.append_cancel_left heq)) (nodup_relFolders1 c)
-    · intro a ha b hb hab
-      subst hab
-      simp only [List.mem_map] at ha
-      obtain ⟨r, _, rfl⟩ := ha
-      obtain ⟨j, r', hj, heq⟩ := relFolders_shape cs (k+1) _ hb
-      have := (objPrefix_inj heq).1
-      omega
-end
-
-theorem extraFolder_paths (es : List Extra) :
-    (extraFolderEntries es).map (·.path)
-      = ((es.filter (fun e => e.filename ≠ sDocSig)).filter (fun e => e.content.isNone)).map (·.filename) := by
-  induction es with
-  | nil => rfl
-  | cons e es ih =>
-    unfold extraFolderEntries at ih ⊢
-    by_cases h : e.filename = sDocSig <;> cases hc : e.content <;> simp_all
-
-/-- all manifest paths, in order -/
-def paths (o : Out) : List Str := o.man.map (·.path)
-
-/-- **C03 (no manifest path twice; in particular exactly one root entry)**: under `DocOK d` and `plainHrefs d` the
-    manifest of the saved package lists every path once — file entries and folder entries, object
-    trees of any depth. -/
-theorem manifest_nodup (d : Doc) (h : DocOK d = true) (hp : plainHrefs d = true) : (paths (save d)).Nodup := by
-  have hsl := folder_iff_slash d h hp
-  have hnames := names_nodup d h
-  rw [manifest_exact_ordered] at hnames
-  have hfiles : (filePaths (save d)).Nodup :=
-    ((List.nodup_append.mp (List.nodup_cons.mp hnames).2).1)
-  -- split the manifest into its file and its folder entries
-  have hperm : (paths (save d)).Perm (filePaths (save d) ++ (folderEntries (save d)).map (·.path)) := by
-    unfold paths filePaths fileEntries folderEntries
-    rw [← List.map_append]
-    apply List.Perm.map
-    have := List.filter_append_perm (fun e : ME => !e.isFolder) (save d).man
-    simpa using this.symm
-  refine (List.Perm.nodup_iff hperm).mpr ?_
-  rw [List.nodup_append]
-  refine ⟨hfiles, ?_, ?_⟩
-  · -- folder paths are distinct
-    rw [folder_entries]
-    simp only [DocOK, Bool.and_eq_true, decide_eq_true_eq, List.all_eq_true] at h
-    obtain ⟨⟨_, hEnd⟩, hEok⟩ := h
-    have hobj : ∀ n ∈ (objFolderEntries [] 1 d.children).map (·.path), startsObj n = true := by
-      intro n hn
-      rw [objFolder_paths] at hn
-      simp only [List.mem_map] at hn
-      obtain ⟨r, hr, rfl⟩ := hn
-      obtain ⟨j, r', _, rfl⟩ := relFolders_shape d.children 1 r hr
-      simpa using startsObj_objPrefix j r'
-    have hobjnd : ((objFolderEntries [] 1 d.children).map (·.path)).Nodup := by
-      rw [objFolder_paths]
-      simpa using nodup_relFolders 1 d.children
-    have hth : ∀ n ∈ (thumbFolderEntries d.thumbnail).map (·.path), n = sThumbDir := by
-      cases d.thumbnail <;> simp [thumbFolderEntries]
-    have hthnd : ((thumbFolderEntries d.thumbnail).map (·.path)).Nodup := by
-      cases d.thumbnail <;> simp [thumbFolderEntries]
-    have hX : ∀ n ∈ (extraFolderEntries d.extras).map (·.path),
-        startsObj n = false ∧ n ≠ sSlash ∧ n ≠ sThumbDir := by
-      intro n hn
-      simp only [extraFolderEntries, List.map_map, List.mem_map, List.mem_filter, Function.comp] at hn
-      obtain ⟨e, ⟨he, hne⟩, rfl⟩ := hn
-      have hne' : e.filename ≠ sDocSig := by simpa using (by simpa using hne : _ ∧ _).1
-      have := hEok e (by simp [liveExtras, he, hne'])
-      simp only [extraOK, Bool.and_eq_true, Bool.not_eq_true', bne_iff_ne] at this
-      exact ⟨this.1.1.1.1.2, this.1.1.2, this.1.2⟩
-    have hXnd : ((extraFolderEntries d.extras).map (·.path)).Nodup := by
-      rw [extraFolder_paths]
-      exact List.Nodup.sublist (List.Sublist.map _ List.filter_sublist) hEnd
-    simp only [List.map_cons, List.map_append, List.cons_append]
-    rw [List.nodup_cons, List.nodup_append, List.nodup_append]
-    refine ⟨?_, ⟨hobjnd, hthnd, ?_⟩, hXnd, ?_⟩
-    · simp only [List.mem_append, not_or]
-      refine ⟨⟨?_, ?_⟩, ?_⟩
-      · intro hc; have := hobj _ hc; revert this; decide
-      · intro hc; have := hth _ hc; revert this; decide
-      · intro hc; exact (hX _ hc).2.1 rfl
-    · intro a ha b hb hab
-      subst hab
-      have h1 := hobj a ha
-      have h2 := hth a hb
-      subst h2; revert h1; decide
-    · intro a ha b hb hab
-      subst hab
-      rcases List.mem_append.mp ha with ha | ha
-      · have h1 := hobj a ha
-        rw [(hX a hb).1] at h1; cases h1
-      · exact (hX a hb).2.2 (hth a ha)
-  · -- a file path never equals a folder path
-    intro a ha b hb hab
-    subst hab
-    simp only [filePaths, fileEntries, folderEntries, List.mem_map, List.mem_filter] at ha hb
-    obtain ⟨e1, ⟨he1, hf1⟩, rfl⟩ := ha
-    obtain ⟨e2, ⟨he2, hf2⟩, heq⟩ := hb
-    have s1 := hsl e1 he1
-    have s2 := hsl e2 he2
-    rw [heq] at s2
-    rw [s2] at hf2
-    rw [s1] at hf1
-    simp [hf2] at hf1
-
-
-/-! ### the hypothesis is satisfiable; what the API and `load` guarantee of it -/
+/-! ### the hypothesis is satisfiable; the picture registry -/
 
 theorem register_hrefs (ps : List Pic) (p : Pic) :
     (register ps p).map (·.href) = if ps.any (fun q => q.href == p.href) then ps.map (·.href)
@@ -1071,7 +1072,7 @@ theorem register_hrefs (ps : List Pic) (p : Pic) :
   · simp
 
 /-- the picture registry is a dict: whatever sequence of registrations, the hrefs are pairwise
-    distinct (the first conjunct of `picsOK` holds by construction) -/
+    distinct -/
 theorem register_nodup (regs : List Pic) : ((regs.foldl register []).map (·.href)).Nodup := by
   suffices h : ∀ acc : List Pic, (acc.map (·.href)).Nodup → ((regs.foldl register acc).map (·.href)).Nodup from
     h [] (by simp)
@@ -1095,41 +1096,23 @@ theorem register_nodup (regs : List Pic) : ((regs.foldl register []).map (·.hre
       simp only [List.any_eq_true]
       exact ⟨q, hq, by simp [hqe]⟩
 
-/-- a document with an object in an object, pictures at every level (one by file name), a thumbnail,
-    a file extra and a directory extra -/
+/-- a document with an explicitly named object ("/MyObj") holding an object of its own ("/MyObj/Object 1"),
+    a second object "/Object 2", pictures at every level (one by file name), a thumbnail, file and
+    directory extras at the top and inside an object -/
 def sampleDoc : Doc :=
   ⟨0, sOdt, true, [⟨sPictures ++ [97], .image [1, 2], [105]⟩], some ⟨[7], [105]⟩,
     [⟨[120, 47, 121], [], some [9]⟩, ⟨[120, 47], [], none⟩], [],
-    [⟨1, sOdt, false, [⟨sPictures ++ [97], .file [102], []⟩], none, [], [], [⟨2, sOdt, true, [⟨sPictures ++ [98], .image [], []⟩], none, [], [], []⟩]⟩,
-     ⟨3, sOdt, false, [], none, [], [], []⟩]⟩
+    [⟨1, sOdt, false, [⟨sPictures ++ [97], .file [102], []⟩], none, [⟨sMeta, sTextXml, some [60]⟩, ⟨[99, 47], [], none⟩],
+        [47, 77, 121, 79, 98, 106],
+        [⟨2, sOdt, true, [⟨sPictures ++ [98], .image [], []⟩], none, [], [47, 77, 121, 79, 98, 106] ++ sSlash ++ objPrefix 1 |>.dropLast, []⟩]⟩,
+     ⟨3, sOdt, false, [], none, [], (sSlash ++ objPrefix 2).dropLast, []⟩]⟩
 
 /-- `DocOK` and `plainHrefs` are satisfiable (by a document that exercises every clause) -/
-theorem docOK_sample : DocOK sampleDoc = true ∧ plainHrefs sampleDoc = true := by decide
+theorem docOK_sample : DocOK sampleDoc = true ∧ plainHrefs sampleDoc = true
+    ∧ (names (save sampleDoc)).length = 19 := by decide
 
-/-! ### what `load` guarantees (code as of fix 87ffca7: "/", "Thumbnails/", mimetype and the manifest are
-     no longer kept as extras) -/
 
-/-- the smallest conforming package: mimetype member, root entry, content.xml, styles.xml -/
-def pkgMinimal : Package :=
-  ⟨some sOdt, [(sSlash, sOdt), (sContent, sTextXml), (sStyles, sTextXml)], [(sContent, [60]), (sStyles, [60])], []⟩
-
-/-- (was finding KF-C03-1, repaired in 87ffca7) the root entry is listed once after load + save -/
-theorem root_entry_once_after_load :
-    (load pkgMinimal).map (fun d => (decide (paths (save d)).Nodup, DocOK d,
-        (paths (save d)).count sSlash)) = some (true, true, 1) := by
-  decide
-
-/-- the same package with a manifest that also lists `mimetype` -/
-def pkgListsMimetype : Package :=
-  ⟨some sOdt, [(sContent, sTextXml), (sStyles, sTextXml), (sMimetype, [])],
-    [(sMimetype, [97]), (sContent, [60]), (sStyles, [60])], []⟩
-
-/-- (was finding KF-C03-2, repaired in 87ffca7) a manifest that lists `mimetype` no longer produces a
-    second member of that name -/
-theorem reserved_name_once_after_load :
-    (load pkgListsMimetype).map (fun d => (decide (names (save d)).Nodup, DocOK d,
-        (names (save d)).count sMimetype)) = some (true, true, 1) := by
-  decide
+/-! ### load: every document it builds, from ANY package, is well-formed -/
 
 theorem dictSet_keys (d : List (Str × Str)) (k v : Str) :
     (dictSet d k v).map (·.1) = if d.any (fun e => e.1 == k) then d.map (·.1) else d.map (·.1) ++ [k] := by
@@ -1166,319 +1149,648 @@ theorem manifestlist_nodup (raw : List (Str × Str)) : ((manifestlist raw).map (
       simp only [List.any_eq_true]
       exact ⟨q, hq, by simp [hqe]⟩
 
-/-- a manifest key that is not a directory below "Pictures/" -/
-def noPicDir (k : Str) : Bool := !(isPicturePath k && endsSlash k)
+/-- if `g` tells the elements of `l` apart and `f` tells apart whatever `g` does, `f` tells them apart -/
+theorem nodup_map_of_nodup_map {α β γ} (f : α → β) (g : α → γ) : ∀ (l : List α), (l.map g).Nodup →
+    (∀ a ∈ l, ∀ b ∈ l, f a = f b → g a = g b) → (l.map f).Nodup := by
+  intro l
+  induction l with
+  | nil => intro _ _; simp
+  | cons x xs ih =>
+    intro hg hinj
+    simp only [List.map_cons, List.nodup_cons] at hg ⊢
+    refine ⟨?_, ih hg.2 (fun a ha b hb => hinj a (List.mem_cons_of_mem _ ha) b (List.mem_cons_of_mem _ hb))⟩
+    intro hin
+    simp only [List.mem_map] at hin
+    obtain ⟨y, hy, hfy⟩ := hin
+    apply hg.1
+    simp only [List.mem_map]
+    exact ⟨y, hy, hinj y (List.mem_cons_of_mem _ hy) x List.mem_cons_self hfy⟩
 
-/-- **the one hypothesis that remains for loaded documents** (needed for `plainHrefs` only): the manifest
-    lists no directory below "Pictures/" ("Pictures/sub/").  `load` registers such an entry, when the zip
-    has the directory member, as a zero-byte picture whose href ends in "/"; it is saved back
-    consistently (member and manifest entry "Pictures/sub/"), but then a path ending in "/" is not a
-    folder entry in the sense of `folder_entries`. -/
-def NoPictureDirs (p : Package) : Bool := ((manifestlist p.manifest).map (·.1)).all noPicDir
+/-- the shape of one folder component: "Object " digits "/" -/
+def IsComp (c : Str) : Prop := ∃ ds, c = sObjectSp ++ ds ++ sSlash ∧ ds ≠ [] ∧ ∀ x ∈ ds, isDigit x = true
 
-/-- loop invariants; `plain = true` additionally tracks `hrefPlain` -/
-def PicsGood (plain : Bool) (ps : List Pic) : Prop :=
-  (ps.map (·.href)).Nodup ∧ ∀ q ∈ ps, hrefOK q.href = true ∧ isPicturePath q.href = true
-    ∧ (plain = true → hrefPlain q.href = true)
-def KidsGood (ks : List Doc) : Prop := ∀ c ∈ ks, c.pictures = [] ∧ c.children = []
-def ExtrasGood (xs : List Extra) : Prop :=
-  ∀ x ∈ xs, reserved.contains x.filename = false ∧ startsObj x.filename = false ∧ isPicturePath x.filename = false
-    ∧ x.filename ≠ sSlash ∧ x.filename ≠ sThumbDir ∧ (x.content.isNone == endsSlash x.filename) = true
+theorem takeWhile_digits (ds t : Str) (h : ∀ x ∈ ds, isDigit x = true) :
+    (ds ++ 47 :: t).takeWhile isDigit = ds := by
+  induction ds with
+  | nil => simp [isDigit]
+  | cons d ds ih =>
+    have hd := h d List.mem_cons_self
+    simp [hd, ih (fun x hx => h x (List.mem_cons_of_mem _ hx))]
 
-theorem register_mem (ps : List Pic) (p q : Pic) (h : q ∈ register ps p) : q = p ∨ q ∈ ps := by
-  unfold register at h
-  split at h
-  · simp only [List.mem_map] at h
-    obtain ⟨q0, hq0, rfl⟩ := h
-    by_cases hh : (q0.href == p.href) = true
-    · simp [hh]
-    · simp [hh, hq0]
-  · simp only [List.mem_append, List.mem_singleton] at h
-    rcases h with h | h
-    · exact Or.inr h
-    · exact Or.inl h
+theorem objComp_of_prefix (c n : Str) (hc : IsComp c) (hp : c <+: n) : objComp n = some c := by
+  obtain ⟨ds, rfl, hne, hd⟩ := hc
+  obtain ⟨t, rfl⟩ := hp
+  have e1 : (sObjectSp ++ ds ++ sSlash ++ t) = sObjectSp ++ (ds ++ 47 :: t) := by simp [sSlash]
+  have e2 : List.take 7 (sObjectSp ++ (ds ++ 47 :: t)) = sObjectSp := by
+    rw [List.take_append]; simp [sObjectSp]
+  have e3 : List.drop 7 (sObjectSp ++ (ds ++ 47 :: t)) = ds ++ 47 :: t := by
+    rw [List.drop_append]; simp [sObjectSp]
+  have e4 : List.drop (7 + ds.length) (sObjectSp ++ (ds ++ 47 :: t)) = 47 :: t := by
+    rw [← List.drop_drop, e3, List.drop_append]; simp
+  have : ds.isEmpty = false := by cases ds with | nil => exact absurd rfl hne | cons a b => rfl
+  unfold objComp
+  rw [e1, e2, e3, takeWhile_digits ds t hd]
+  simp [e4, this, sSlash]
 
-theorem register_good (plain : Bool) (ps : List Pic) (p : Pic) (h : PicsGood plain ps) (h1 : hrefOK p.href = true)
-    (h2 : isPicturePath p.href = true) (h3 : plain = true → hrefPlain p.href = true) :
-    PicsGood plain (register ps p) := by
-  refine ⟨?_, ?_⟩
-  · rw [register_hrefs]
-    split
-    · exact h.1
-    · rename_i hn
+theorem mem_takeWhile_prop (p : Nat → Bool) : ∀ (l : Str) (x : Nat), x ∈ l.takeWhile p → p x = true := by
+  intro l
+  induction l with
+  | nil => intro x hx; simp at hx
+  | cons a l ih =>
+    intro x hx
+    by_cases ha : p a = true
+    · simp only [List.takeWhile_cons, ha, if_true, List.mem_cons] at hx
+      rcases hx with rfl | hx
+      · exact ha
+      · exact ih x hx
+    · simp [ha] at hx
+
+theorem eq_dropLast_append_of_getLast? : ∀ (l : Str) (a : Nat), l.getLast? = some a → l = l.dropLast ++ [a] := by
+  intro l
+  induction l with
+  | nil => intro a h; simp at h
+  | cons x xs ih =>
+    intro a h
+    cases xs with
+    | nil => simp at h; simp [h]
+    | cons y ys =>
+      have h' : (y :: ys).getLast? = some a := by simpa [List.getLast?_cons_cons] using h
+      have := ih a h'
+      simp only [List.dropLast_cons_cons, List.cons_append]
+      rw [← this]
+
+theorem objComp_some (s c : Str) (h : objComp s = some c) : IsComp c ∧ c <+: s := by
+  unfold objComp at h
+  by_cases h7 : (s.take 7 == sObjectSp) = true
+  · simp only [h7, if_true] at h
+    by_cases h2 : (!((s.drop 7).takeWhile isDigit).isEmpty && (s.drop (7 + ((s.drop 7).takeWhile isDigit).length)).head? == some 47) = true
+    · simp only [h2, if_true, Option.some.injEq] at h
+      simp only [Bool.and_eq_true, Bool.not_eq_true', beq_iff_eq] at h2
+      subst h
+      have hne : (s.drop 7).takeWhile isDigit ≠ [] := by
+        intro he; rw [he] at h2; simp at h2
+      refine ⟨⟨_, rfl, hne, fun x hx => mem_takeWhile_prop isDigit _ x hx⟩, ?_⟩
+      have hs : s = s.take 7 ++ s.drop 7 := (List.take_append_drop 7 s).symm
+      have hd : s.drop 7 = (s.drop 7).takeWhile isDigit ++ (s.drop 7).dropWhile isDigit :=
+        (List.takeWhile_append_dropWhile).symm
+      have hdd : s.drop (7 + ((s.drop 7).takeWhile isDigit).length) = (s.drop 7).dropWhile isDigit := by
+        rw [← List.drop_drop]
+        conv => lhs; rw [hd]
+        rw [List.drop_append]; simp
+      rw [hdd] at h2
+      cases hw : (s.drop 7).dropWhile isDigit with
+      | nil => rw [hw] at h2; simp at h2
+      | cons a t =>
+        rw [hw] at h2
+        have ha : a = 47 := by simpa using h2.2
+        subst ha
+        refine ⟨t, ?_⟩
+        have h7' : s.take 7 = sObjectSp := by simpa using h7
+        conv => rhs; rw [hs, hd, hw, h7']
+        simp [sSlash]
+    · simp only [h2] at h
+      simp at h
+  · simp only [h7] at h
+    simp at h
+
+theorem isComp_facts (c : Str) (h : IsComp c) :
+    c ≠ [] ∧ c.getLast? = some 47 ∧ 47 ∉ c.dropLast ∧ c.dropLast ≠ [] ∧ c = c.dropLast ++ sSlash ∧ startsObj c = true := by
+  obtain ⟨ds, rfl, hne, hd⟩ := h
+  have e : (sObjectSp ++ ds ++ sSlash).dropLast = sObjectSp ++ ds := by simp [sSlash]
+  refine ⟨by simp [sSlash], by simp [sSlash, List.getLast?_append], ?_, ?_, ?_, ?_⟩
+  · rw [e]
+    intro hin
+    rcases List.mem_append.mp hin with hin | hin
+    · revert hin; decide
+    · have := hd 47 hin; revert this; decide
+  · rw [e]; simp [sObjectSp]
+  · rw [e]
+  · simp [startsObj, sObjectSp]
+
+/-- a folder in the package: "" or something ending in "/" -/
+def PathOK (P : Str) : Prop := P = [] ∨ P.getLast? = some 47
+
+theorem pathOK_append (P c : Str) (hc : IsComp c) : PathOK (P ++ c) := by
+  right
+  rw [List.getLast?_append, (isComp_facts c hc).2.1]; rfl
+
+theorem folderOfPath_append (P c : Str) (hP : PathOK P) (hc : IsComp c) :
+    folderOfPath (P ++ c) = folderOfPath P ++ sSlash ++ c.dropLast := by
+  obtain ⟨hne, _, _, _, hcc, _⟩ := isComp_facts c hc
+  have h1 : (P ++ c).isEmpty = false := by
+    cases c with
+    | nil => exact absurd rfl hne
+    | cons a b => cases P <;> rfl
+  have h2 : (P ++ c).dropLast = P ++ c.dropLast := by
+    conv => lhs; rw [hcc, ← List.append_assoc]
+    simp [sSlash]
+  rcases hP with rfl | hP
+  · simp [folderOfPath, sSlash] at *
+    simp [hne]
+  · have hPne : P ≠ [] := by intro he; rw [he] at hP; simp at hP
+    have hP' : P = P.dropLast ++ [47] := eq_dropLast_append_of_getLast? P 47 hP
+    have h3 : P.isEmpty = false := by cases P with | nil => exact absurd rfl hPne | cons a b => rfl
+    simp only [folderOfPath, h1, h3, h2]
+    conv => lhs; rw [hP']
+    simp [sSlash]
+
+theorem chainEnd_spec (keys : List Str) : ∀ (f : Nat) (op rest : Str), rest.length ≤ f →
+    ∃ rest', op ++ rest = chainEnd keys f op rest ++ rest' ∧
+      ∀ c, objComp rest' = some c → keys.contains (chainEnd keys f op rest ++ c) = false := by
+  intro f
+  induction f with
+  | zero =>
+    intro op rest h
+    have : rest = [] := by cases rest with | nil => rfl | cons a b => simp at h
+    subst this
+    exact ⟨[], by simp [chainEnd], fun c hc => by simp [objComp, sObjectSp] at hc⟩
+  | succ f ih =>
+    intro op rest h
+    simp only [chainEnd]
+    cases ho : objComp rest with
+    | none => exact ⟨rest, rfl, fun c hc => by rw [ho] at hc; cases hc⟩
+    | some c =>
+      simp only
+      by_cases hk : keys.contains (op ++ c) = true
+      · simp only [hk, if_true]
+        obtain ⟨hcomp, t, ht⟩ := objComp_some rest c ho
+        have hcl : 0 < c.length := by
+          have := (isComp_facts c hcomp).1
+          cases c with | nil => exact absurd rfl this | cons a b => simp
+        have hdrop : rest.drop c.length = t := by rw [← ht]; simp
+        have hlen : (rest.drop c.length).length ≤ f := by
+          rw [List.length_drop]; omega
+        obtain ⟨r', e1, e2⟩ := ih (op ++ c) (rest.drop c.length) hlen
+        refine ⟨r', ?_, e2⟩
+        rw [← e1, hdrop, ← ht]; simp
+      · simp only [hk]
+        refine ⟨rest, rfl, fun c' hc' => ?_⟩
+        rw [ho] at hc'
+        cases hc'
+        simpa using hk
+
+theorem chainEnd_pathOK (keys : List Str) : ∀ (f : Nat) (op rest : Str), PathOK op → PathOK (chainEnd keys f op rest) := by
+  intro f
+  induction f with
+  | zero => intro op rest h; exact h
+  | succ f ih =>
+    intro op rest h
+    simp only [chainEnd]
+    cases ho : objComp rest with
+    | none => exact h
+    | some c =>
+      simp only
+      by_cases hk : keys.contains (op ++ c) = true
+      · simp only [hk, if_true]
+        exact ih _ _ (pathOK_append op c (objComp_some rest c ho).1)
+      · simp only [hk]; exact h
+
+/-- what is known of the key of an entry dispatched to the document stored in `P` -/
+theorem chainOf_spec (keys : List Str) (k : Str) :
+    k = chainOf keys k ++ k.drop (chainOf keys k).length ∧
+    ∀ c, objComp (k.drop (chainOf keys k).length) = some c → keys.contains (chainOf keys k ++ c) = false := by
+  obtain ⟨r', e1, e2⟩ := chainEnd_spec keys k.length [] k (Nat.le_refl _)
+  simp only [List.nil_append] at e1
+  unfold chainOf
+  generalize chainEnd keys k.length [] k = P at e1 e2 ⊢
+  have hd : k.drop P.length = r' := by rw [e1]; simp
+  rw [hd]
+  exact ⟨e1, e2⟩
+
+theorem chainPairs_spec (keys : List Str) : ∀ (f : Nat) (op rest : Str), PathOK op →
+    ∀ x ∈ chainPairs keys f op rest, PathOK x.1 ∧ ∃ c, IsComp c ∧ x.2 = x.1 ++ c ∧ x.2 ∈ keys := by
+  intro f
+  induction f with
+  | zero => intro op rest _ x hx; simp [chainPairs] at hx
+  | succ f ih =>
+    intro op rest hop x hx
+    simp only [chainPairs] at hx
+    cases ho : objComp rest with
+    | none => simp [ho] at hx
+    | some c =>
+      simp only [ho] at hx
+      by_cases hk : keys.contains (op ++ c) = true
+      · simp only [hk, if_true, List.mem_cons] at hx
+        have hcomp := (objComp_some rest c ho).1
+        rcases hx with rfl | hx
+        · exact ⟨hop, c, hcomp, rfl, by simpa using hk⟩
+        · exact ih _ _ (pathOK_append op c hcomp) x hx
+      · simp only [hk] at hx
+        simp at hx
+
+
+theorem nodeOK_intro (top : Bool) (pics : List Pic) (ex : List Extra) (fo : Str) (kids : List Doc)
+    (h1 : (givenNames pics ex).Nodup) (h2 : (kids.map (kidName fo)).Nodup)
+    (h3 : ∀ n ∈ givenNames pics ex, n ∉ reservedFor top ∧ n ≠ [])
+    (h4 : ∀ e ∈ liveExtras ex, (e.content.isNone == endsSlash e.filename) = true)
+    (h5 : ∀ c ∈ kids, kidName fo c ≠ [] ∧ 47 ∉ kidName fo c ∧ c.folder = fo ++ sSlash ++ kidName fo c
+      ∧ ∀ n ∈ reservedFor top ++ givenNames pics ex, ¬ (kidName fo c ++ sSlash) <+: n) :
+    nodeOK top pics ex fo kids = true := by
+  simp only [nodeOK, Bool.and_eq_true, decide_eq_true_eq, List.all_eq_true, Bool.not_eq_true', bne_iff_ne, beq_iff_eq]
+  refine ⟨⟨⟨⟨h1, h2⟩, ?_⟩, fun e he => by simpa using h4 e he⟩, ?_⟩
+  · intro n hn
+    refine ⟨?_, (h3 n hn).2⟩
+    cases hc : (reservedFor top).contains n with
+    | false => rfl
+    | true => exact absurd (List.contains_iff_mem.mp hc) (h3 n hn).1
+  · intro c hc
+    obtain ⟨a1, a2, a3, a4⟩ := h5 c hc
+    refine ⟨⟨⟨a1, ?_⟩, a3⟩, ?_⟩
+    · cases hcc : (kidName fo c).contains 47 with
+      | false => rfl
+      | true => exact absurd (List.contains_iff_mem.mp hcc) a2
+    · intro n hn
+      cases hp : (kidName fo c ++ sSlash).isPrefixOf n with
+      | false => rfl
+      | true => exact absurd (List.isPrefixOf_iff_prefix.mp hp) (a4 n hn)
+
+theorem foldl_addPair_mem : ∀ (L acc : List (Str × Str)) (x : Str × Str),
+    x ∈ L.foldl addPair acc ↔ x ∈ acc ∨ x ∈ L := by
+  intro L
+  induction L with
+  | nil => intro acc x; simp
+  | cons y ys ih =>
+    intro acc x
+    simp only [List.foldl_cons, ih, addPair]
+    by_cases hc : acc.contains y = true
+    · simp only [hc, if_true, List.mem_cons]
+      constructor
+      · rintro (h | h); exact Or.inl h; exact Or.inr (Or.inr h)
+      · rintro (h | h | h)
+        · exact Or.inl h
+        · subst h; exact Or.inl (List.contains_iff_mem.mp hc)
+        · exact Or.inr h
+    · simp only [hc, Bool.false_eq_true, if_false, List.mem_append, List.mem_cons, List.not_mem_nil, or_false]
+      constructor
+      · rintro ((h | h) | h); exact Or.inl h; exact Or.inr (Or.inl h); exact Or.inr (Or.inr h)
+      · rintro (h | h | h); exact Or.inl (Or.inl h); exact Or.inl (Or.inr h); exact Or.inr h
+
+theorem foldl_addPair_nodup : ∀ (L acc : List (Str × Str)), acc.Nodup → (L.foldl addPair acc).Nodup := by
+  intro L
+  induction L with
+  | nil => intro acc h; simpa using h
+  | cons y ys ih =>
+    intro acc h
+    simp only [List.foldl_cons]
+    apply ih
+    unfold addPair
+    by_cases hc : acc.contains y = true
+    · simp only [hc, if_true]; exact h
+    · simp only [hc, Bool.false_eq_true, if_false]
       rw [List.nodup_append]
-      refine ⟨h.1, by simp, ?_⟩
+      refine ⟨h, by simp, ?_⟩
       intro a ha b hb hab
       simp at hb; subst hb; subst hab
-      apply hn
-      simp only [List.mem_map] at ha
-      obtain ⟨q, hq, hqe⟩ := ha
-      simp only [List.any_eq_true]
-      exact ⟨q, hq, by simp [hqe]⟩
-  · intro q hq
-    rcases register_mem ps p q hq with rfl | hq
-    · exact ⟨h1, h2, h3⟩
-    · exact h.2 q hq
+      exact hc (List.contains_iff_mem.mpr ha)
 
-theorem picturePath_hrefOK (m : Str) (hp : isPicturePath m = true) : hrefOK m = true := by
-  simp only [isPicturePath, Bool.and_eq_true, beq_iff_eq, decide_eq_true_eq] at hp
-  have hres : reserved.contains m = false := by
-    cases hr : reserved.contains m with
-    | false => rfl
-    | true =>
-      exfalso
-      simp [reserved] at hr
-      rcases hr with rfl | rfl | rfl | rfl | rfl | rfl | rfl <;> exact absurd hp.1 (by decide)
-  have hobj : startsObj m = false := by
-    have : m.take 7 = (m.take 9).take 7 := by simp [List.take_take]
-    simp only [startsObj, this, hp.1]; decide
-  simp only [hrefOK, hres, hobj, Bool.not_false, Bool.and_self]
+theorem allPairs_spec (keys : List Str) : ∀ x ∈ allPairs keys,
+    PathOK x.1 ∧ ∃ c, IsComp c ∧ x.2 = x.1 ++ c ∧ x.2 ∈ keys := by
+  intro x hx
+  simp only [allPairs, foldl_addPair_mem, List.not_mem_nil, false_or, List.mem_flatMap] at hx
+  obtain ⟨k, _, hk⟩ := hx
+  exact chainPairs_spec keys k.length [] k (Or.inl rfl) x hk
 
-theorem picturePath_plain (m : Str) (hp : isPicturePath m = true) (hc : noPicDir m = true) : hrefPlain m = true := by
-  have hne : m.isEmpty = false := by
-    cases m with
-    | nil => simp [isPicturePath] at hp
-    | cons a b => rfl
-  have hsl : endsSlash m = false := by
-    simp only [noPicDir, hp, Bool.true_and, Bool.not_eq_true'] at hc
-    exact hc
-  simp only [hrefPlain, hne, hsl, Bool.not_false, Bool.and_self]
+theorem mem_kidsOf (keys : List Str) (P Q : Str) : Q ∈ kidsOf keys P ↔ (P, Q) ∈ allPairs keys := by
+  simp only [kidsOf, List.mem_map, List.mem_filter, beq_iff_eq]
+  constructor
+  · rintro ⟨x, ⟨hx, h1⟩, h2⟩
+    cases x with
+    | mk a b => simp only at h1 h2; subst h1; subst h2; exact hx
+  · intro h; exact ⟨(P, Q), ⟨h, rfl⟩, rfl⟩
 
-/-- one iteration of the dispatch loop keeps the invariants and adds at most the extra named by the key -/
-theorem loadEntry_good (plain : Bool) (p : Package) (keys : List Str) (s s1 : LoadSt) (e : Str × Str)
-    (h : loadEntry p keys s e = some s1) (hc : plain = true → noPicDir e.1 = true)
-    (hP : PicsGood plain s.pics) (hK : KidsGood s.kids) (hX : ExtrasGood s.extras) :
-    PicsGood plain s1.pics ∧ KidsGood s1.kids ∧ ExtrasGood s1.extras
-      ∧ (s1.extras = s.extras ∨ ∃ c, s1.extras = s.extras ++ [⟨e.1, e.2, c⟩]) := by
-  unfold loadEntry at h
-  simp only at h
-  by_cases h1 : isPicturePath e.1 = true
-  · simp only [h1, if_true] at h
-    cases hz : zread p.members e.1 with
-    | none => simp [hz] at h
-    | some b =>
-      simp only [hz, Option.some.injEq] at h
-      subst h
-      exact ⟨register_good plain _ _ hP (picturePath_hrefOK e.1 h1) h1 (fun hpl => picturePath_plain e.1 h1 (hc hpl)),
-        hK, hX, Or.inl rfl⟩
-  · simp only [h1, Bool.false_eq_true, ↓reduceIte] at h
-    by_cases h2 : (e.1 == sThumb) = true
-    · simp only [h2, if_true] at h
-      cases hz : zread p.members e.1 with
-      | none => simp [hz] at h
-      | some b =>
-        simp only [hz, Option.some.injEq] at h
-        subst h
-        exact ⟨hP, hK, hX, Or.inl rfl⟩
-    · simp only [h2, Bool.false_eq_true, ↓reduceIte] at h
-      by_cases h3 : isXmlPart e.1 = true
-      · simp only [h3, if_true, Option.some.injEq] at h
-        subst h; exact ⟨hP, hK, hX, Or.inl rfl⟩
-      · simp only [h3, Bool.false_eq_true, ↓reduceIte] at h
-        by_cases hr : isRegenerated e.1 = true
-        · simp only [hr, if_true, Option.some.injEq] at h
-          subst h; exact ⟨hP, hK, hX, Or.inl rfl⟩
-        · simp only [hr, Bool.false_eq_true, ↓reduceIte] at h
-          by_cases h4 : isObjectFolder e.1 = true
-          · simp only [h4, if_true, Option.some.injEq] at h
-            subst h
-            refine ⟨hP, ?_, hX, Or.inl rfl⟩
-            intro c hcm
-            simp only [List.mem_append, List.mem_singleton] at hcm
-            rcases hcm with hcm | hcm
-            · exact hK c hcm
-            · subst hcm; exact ⟨rfl, rfl⟩
-          · simp only [h4, Bool.false_eq_true, ↓reduceIte] at h
-            by_cases h5 : (e.1.take 7 == sObjectSp) = true
-            · simp only [h5, if_true, Option.some.injEq] at h
-              subst h; exact ⟨hP, hK, hX, Or.inl rfl⟩
-            · simp only [h5, Bool.false_eq_true, ↓reduceIte] at h
-              -- the extra: common facts about its name
-              have hreg : e.1 ≠ sSlash ∧ e.1 ≠ sThumbDir ∧ e.1 ≠ sMimetype ∧ e.1 ≠ sManifestPath := by
-                simp only [isRegenerated, Bool.or_eq_true, beq_iff_eq, not_or] at hr
-                exact ⟨hr.1.1.1, hr.1.1.2, hr.1.2, hr.2⟩
-              have hres : reserved.contains e.1 = false := by
-                cases hrs : reserved.contains e.1 with
-                | false => rfl
-                | true =>
-                  exfalso
-                  simp [reserved] at hrs
-                  rcases hrs with hrs | hrs | hrs | hrs | hrs | hrs | hrs
-                  · exact h3 (by simp [isXmlPart, hrs])
-                  · exact h3 (by simp [isXmlPart, hrs])
-                  · exact h3 (by simp [isXmlPart, hrs])
-                  · exact h3 (by simp [isXmlPart, hrs])
-                  · exact hreg.2.2.1 hrs
-                  · exact h2 (by simp [hrs])
-                  · exact hreg.2.2.2 hrs
-              have hobj : startsObj e.1 = false := by simpa [startsObj] using h5
-              have hpic : isPicturePath e.1 = false := by simpa using h1
-              cases hl : e.1.getLast? with
-              | none => simp [hl] at h
-              | some c =>
-                simp only [hl] at h
-                by_cases h6 : (c == 47) = true
-                · simp only [h6, if_true, Option.some.injEq] at h
-                  subst h
-                  refine ⟨hP, hK, ?_, Or.inr ⟨none, rfl⟩⟩
-                  intro x hx
-                  simp only [List.mem_append, List.mem_singleton] at hx
-                  rcases hx with hx | hx
-                  · exact hX x hx
-                  · subst hx
-                    refine ⟨hres, hobj, hpic, hreg.1, hreg.2.1, ?_⟩
-                    have : c = 47 := by simpa using h6
-                    simp [endsSlash, hl, this]
-                · simp only [h6, Bool.false_eq_true, ↓reduceIte] at h
-                  cases hz : zread p.members e.1 with
-                  | none => simp [hz] at h
-                  | some b =>
-                    simp only [hz, Option.some.injEq] at h
-                    subst h
-                    refine ⟨hP, hK, ?_, Or.inr ⟨some b, rfl⟩⟩
-                    intro x hx
-                    simp only [List.mem_append, List.mem_singleton] at hx
-                    rcases hx with hx | hx
-                    · exact hX x hx
-                    · subst hx
-                      refine ⟨hres, hobj, hpic, hreg.1, hreg.2.1, ?_⟩
-                      have : c ≠ 47 := by simpa using h6
-                      simp [endsSlash, hl, this]
+theorem kidsOf_nodup (keys : List Str) (P : Str) : (kidsOf keys P).Nodup := by
+  unfold kidsOf
+  have hn : (allPairs keys).Nodup := foldl_addPair_nodup _ [] (by simp)
+  have hf : ((allPairs keys).filter (fun x => x.1 == P)).Nodup := List.Nodup.sublist List.filter_sublist hn
+  have := nodup_map_of_nodup_map (fun x : Str × Str => x.2) id _ (by simpa using hf) (by
+    intro a ha b hb hab
+    simp only [List.mem_filter, beq_iff_eq] at ha hb
+    cases a; cases b; simp only at ha hb hab ⊢
+    rw [ha.2, hb.2, hab])
+  exact this
 
-theorem loadLoop_good (plain : Bool) (p : Package) (keys : List Str) : ∀ (es : List (Str × Str)) (s s' : LoadSt),
-    loadLoop p keys s es = some s' → (∀ e ∈ es, plain = true → noPicDir e.1 = true) → (es.map (·.1)).Nodup →
-    PicsGood plain s.pics → KidsGood s.kids → ExtrasGood s.extras → (s.extras.map (·.filename)).Nodup →
-    (∀ x ∈ s.extras, x.filename ∉ es.map (·.1)) →
-    PicsGood plain s'.pics ∧ KidsGood s'.kids ∧ ExtrasGood s'.extras ∧ (s'.extras.map (·.filename)).Nodup := by
-  intro es
-  induction es with
-  | nil =>
-    intro s s' h _ _ hP hK hX hN _
-    simp only [loadLoop, Option.some.injEq] at h
-    subst h; exact ⟨hP, hK, hX, hN⟩
-  | cons e es ih =>
-    intro s s' h hc hnd hP hK hX hN hfresh
-    simp only [loadLoop] at h
-    cases h1 : loadEntry p keys s e with
-    | none => simp [h1] at h
-    | some s1 =>
-      simp only [h1] at h
-      obtain ⟨gP, gK, gX, gE⟩ := loadEntry_good plain p keys s s1 e h1 (hc e List.mem_cons_self) hP hK hX
-      simp only [List.map_cons, List.nodup_cons] at hnd
-      refine ih s1 s' h (fun x hx => hc x (List.mem_cons_of_mem _ hx)) hnd.2 gP gK gX ?_ ?_
-      · rcases gE with gE | ⟨c, gE⟩
-        · rw [gE]; exact hN
-        · rw [gE, List.map_append, List.nodup_append]
-          refine ⟨hN, by simp, ?_⟩
-          intro a ha b hb hab
-          simp at hb; subst hb; subst hab
-          simp only [List.mem_map] at ha
-          obtain ⟨x, hx, hxe⟩ := ha
-          exact hfresh x hx (by simp [hxe])
-      · intro x hx
-        rcases gE with gE | ⟨c, gE⟩
-        · rw [gE] at hx
-          intro hm; exact hfresh x hx (List.mem_cons_of_mem _ hm)
-        · rw [gE] at hx
-          simp only [List.mem_append, List.mem_singleton] at hx
-          rcases hx with hx | hx
-          · intro hm; exact hfresh x hx (List.mem_cons_of_mem _ hm)
-          · subst hx; exact hnd.1
+theorem foldl_register_mem : ∀ (l acc : List Pic) (q : Pic), q ∈ l.foldl register acc → q ∈ acc ∨ q ∈ l := by
+  intro l
+  induction l with
+  | nil => intro acc q h; exact Or.inl (by simpa using h)
+  | cons x xs ih =>
+    intro acc q h
+    simp only [List.foldl_cons] at h
+    rcases ih _ q h with h1 | h1
+    · unfold register at h1
+      split at h1
+      · simp only [List.mem_map] at h1
+        obtain ⟨q0, hq0, rfl⟩ := h1
+        by_cases hh : (q0.href == x.href) = true
+        · simp [hh]
+        · simp [hh, hq0]
+      · simp only [List.mem_append, List.mem_singleton] at h1
+        rcases h1 with h1 | h1
+        · exact Or.inl h1
+        · exact Or.inr (by simp [h1])
+    · exact Or.inr (List.mem_cons_of_mem _ h1)
 
-theorem treeOKs_of_kidsGood : ∀ (ks : List Doc), KidsGood ks → treeOKs ks = true ∧ plainHrefsK ks = true := by
-  intro ks
-  induction ks with
-  | nil => intro _; simp [treeOKs, plainHrefsK]
-  | cons c cs ih =>
+
+/-- what `load` works with: the dict of the manifest, its keys, and every `z.read` it needs succeeds -/
+structure LoadCtx (p : Package) (man : List (Str × Str)) (keys : List Str) : Prop where
+  hkeys : keys = man.map (·.1)
+  hnd : keys.Nodup
+  hread : ∀ e ∈ man, needsRead keys e = true → (zread p.members e.1).isSome = true
+
+theorem mem_entriesAt (man : List (Str × Str)) (keys : List Str) (P : Str) (e : Str × Str) :
+    e ∈ entriesAt man keys P ↔ e ∈ man ∧ chainOf keys e.1 = P := by
+  simp [entriesAt]
+
+/-- the key of an entry dispatched to `P` is `P` + its name there -/
+theorem entry_key (man : List (Str × Str)) (keys : List Str) (P : Str) (e : Str × Str)
+    (he : e ∈ entriesAt man keys P) : e.1 = P ++ e.1.drop P.length := by
+  have := (chainOf_spec keys e.1).1
+  rw [((mem_entriesAt man keys P e).mp he).2] at this
+  exact this
+
+theorem mem_picsAt (p : Package) (man : List (Str × Str)) (keys : List Str) (P : Str) (q : Pic)
+    (hq : q ∈ picsAt p man keys P) :
+    ∃ e ∈ entriesAt man keys P, isPicturePath (e.1.drop P.length) = true ∧ q.href = e.1.drop P.length := by
+  unfold picsAt at hq
+  rcases foldl_register_mem _ [] q hq with h | h
+  · cases h
+  · simp only [List.mem_map, List.mem_filter] at h
+    obtain ⟨e, ⟨he, hp⟩, rfl⟩ := h
+    exact ⟨e, he, hp, rfl⟩
+
+theorem mem_extrasAt (p : Package) (man : List (Str × Str)) (keys : List Str) (P : Str) (x : Extra) :
+    x ∈ extrasAt p man keys P ↔ ∃ e ∈ entriesAt man keys P, isKept P e = true ∧ x = toExtra p P e := by
+  simp only [extrasAt, List.mem_map, List.mem_filter]
+  constructor
+  · rintro ⟨e, ⟨he, hk⟩, rfl⟩; exact ⟨e, he, hk, rfl⟩
+  · rintro ⟨e, he, hk, rfl⟩; exact ⟨e, ⟨he, hk⟩, rfl⟩
+
+theorem picture_not_reserved (top : Bool) (n : Str) (h : isPicturePath n = true) : n ∉ reservedFor top ∧ n ≠ [] := by
+  refine ⟨?_, by intro he; rw [he] at h; simp [isPicturePath] at h⟩
+  intro hr
+  have : isPicturePath n = false := by
+    cases top <;> simp [reservedFor] at hr
+    · rcases hr with rfl | rfl | rfl <;> decide
+    · rcases hr with rfl | rfl | rfl | rfl | rfl | rfl | rfl | rfl | rfl <;> decide
+  rw [this] at h; cases h
+
+theorem kept_not_reserved (P : Str) (e : Str × Str) (hk : isKept P e = true) (he : e.1 = P ++ e.1.drop P.length) :
+    e.1.drop P.length ∉ reservedFor (decide (P = [])) ∧ e.1.drop P.length ≠ [] := by
+  simp only [isKept, Bool.and_eq_true, Bool.not_eq_true', Bool.or_eq_false_iff, beq_eq_false_iff_ne] at hk
+  obtain ⟨⟨⟨_, hth⟩, hpp, hme⟩, hreg⟩ := hk
+  simp only [isParsedPart, Bool.or_eq_false_iff, beq_eq_false_iff_ne] at hpp
+  refine ⟨?_, hpp.2⟩
+  by_cases hP : P = []
+  · subst hP
+    simp only [List.length_nil, List.drop_zero] at *
+    simp only [isRegenerated, Bool.or_eq_false_iff, beq_eq_false_iff_ne] at hreg
+    simp only [decide_true, reservedFor, if_true, List.mem_cons, List.not_mem_nil, or_false, not_or]
+    exact ⟨hpp.1.2, hpp.1.1.2, hpp.1.1.1, hme, hreg.1.2, hth, hreg.2, hreg.1.1.1, hreg.1.1.2⟩
+  · simp only [hP, decide_false, reservedFor, Bool.false_eq_true, if_false, List.mem_cons, List.not_mem_nil, or_false, not_or]
+    exact ⟨hpp.1.2, hpp.1.1.2, hpp.1.1.1⟩
+
+theorem startsObj_of_prefix (c r : Str) (hc : IsComp c) (hp : c <+: r) : startsObj r = true := by
+  obtain ⟨ds, rfl, _, _⟩ := hc
+  obtain ⟨t, rfl⟩ := hp
+  simp [startsObj, sObjectSp]
+
+theorem reserved_not_obj (top : Bool) : ∀ r ∈ reservedFor top, startsObj r = false := by
+  cases top <;> decide
+
+theorem kidName_built (P c : Str) (hP : PathOK P) (hc : IsComp c) (d : Doc)
+    (hd : d.folder = folderOfPath (P ++ c)) : kidName (folderOfPath P) d = c.dropLast := by
+  unfold kidName
+  rw [hd, folderOfPath_append P c hP hc]
+  have : (folderOfPath P ++ sSlash ++ c.dropLast) = (folderOfPath P ++ sSlash) ++ c.dropLast := by simp
+  rw [this, List.drop_append]
+  simp [sSlash]
+
+/-- one document that `load` builds is well-formed, whatever stands for its sub-documents as long as they carry
+    the folder of their place -/
+theorem nodeOK_at (p : Package) (man : List (Str × Str)) (keys : List Str) (ctx : LoadCtx p man keys)
+    (P : Str) (hP : PathOK P) (g : Str → Doc) (hg : ∀ Q, (g Q).folder = folderOfPath Q) :
+    nodeOK (decide (P = [])) (picsAt p man keys P) (extrasAt p man keys P) (folderOfPath P)
+      ((kidsOf keys P).map g) = true := by
+  -- names of the live extras
+  have hlive : ∀ n ∈ (liveExtras (extrasAt p man keys P)).map (·.filename),
+      ∃ e ∈ entriesAt man keys P, isKept P e = true ∧ n = e.1.drop P.length := by
+    intro n hn
+    simp only [liveExtras, List.mem_map, List.mem_filter] at hn
+    obtain ⟨x, ⟨hx, _⟩, rfl⟩ := hn
+    obtain ⟨e, he, hk, rfl⟩ := (mem_extrasAt p man keys P x).mp hx
+    exact ⟨e, he, hk, rfl⟩
+  have hhref : ∀ n ∈ (picsAt p man keys P).map (·.href),
+      ∃ e ∈ entriesAt man keys P, isPicturePath (e.1.drop P.length) = true ∧ n = e.1.drop P.length := by
+    intro n hn
+    simp only [List.mem_map] at hn
+    obtain ⟨q, hq, rfl⟩ := hn
+    exact mem_picsAt p man keys P q hq
+  -- every given name comes from an entry dispatched here
+  have hgiven : ∀ n ∈ givenNames (picsAt p man keys P) (extrasAt p man keys P),
+      ∃ e ∈ entriesAt man keys P, n = e.1.drop P.length ∧ n ∉ reservedFor (decide (P = [])) ∧ n ≠ [] := by
+    intro n hn
+    rcases List.mem_append.mp hn with hn | hn
+    · obtain ⟨e, he, hp, rfl⟩ := hhref n hn
+      exact ⟨e, he, rfl, picture_not_reserved _ _ hp⟩
+    · obtain ⟨e, he, hk, rfl⟩ := hlive n hn
+      exact ⟨e, he, rfl, kept_not_reserved P e hk (entry_key man keys P e he)⟩
+  -- the sub-documents
+  have hkid : ∀ d ∈ (kidsOf keys P).map g, ∃ c, IsComp c ∧ (P ++ c) ∈ keys ∧ d.folder = folderOfPath (P ++ c)
+      ∧ kidName (folderOfPath P) d = c.dropLast := by
+    intro d hd
+    simp only [List.mem_map] at hd
+    obtain ⟨Q, hQ, rfl⟩ := hd
+    obtain ⟨_, c, hc, e2, e3⟩ := allPairs_spec keys (P, Q) ((mem_kidsOf keys P Q).mp hQ)
+    simp only at e2 e3
+    subst e2
+    exact ⟨c, hc, e3, hg _, kidName_built P c hP hc _ (hg _)⟩
+  apply nodeOK_intro
+  · -- given names pairwise distinct
+    unfold givenNames
+    rw [List.nodup_append]
+    refine ⟨register_nodup _, ?_, ?_⟩
+    · have hsub : ((liveExtras (extrasAt p man keys P)).map (·.filename)).Sublist
+          (((entriesAt man keys P).filter (isKept P)).map (fun e => e.1.drop P.length)) := by
+        unfold liveExtras extrasAt
+        have : (((entriesAt man keys P).filter (isKept P)).map (fun e => e.1.drop P.length))
+            = (((entriesAt man keys P).filter (isKept P)).map (toExtra p P)).map (·.filename) := by
+          simp [List.map_map, Function.comp, toExtra]
+        rw [this]
+        exact List.Sublist.map _ List.filter_sublist
+      refine List.Nodup.sublist hsub ?_
+      apply nodup_map_of_nodup_map _ (fun e : Str × Str => e.1)
+      · have h1 : ((entriesAt man keys P).filter (isKept P)).Sublist man :=
+          List.Sublist.trans List.filter_sublist (by unfold entriesAt; exact List.filter_sublist)
+        have h2 := List.Sublist.map (fun e : Str × Str => e.1) h1
+        rw [← ctx.hkeys] at h2
+        exact List.Nodup.sublist h2 ctx.hnd
+      · intro a ha b hb hab
+        have ka := entry_key man keys P a (List.mem_filter.mp ha).1
+        have kb := entry_key man keys P b (List.mem_filter.mp hb).1
+        rw [ka, kb, hab]
+    · intro a ha b hb hab
+      subst hab
+      obtain ⟨e1, _, hp1, rfl⟩ := hhref a ha
+      obtain ⟨e2, _, hk2, h2⟩ := hlive _ hb
+      simp only [isKept, Bool.and_eq_true, Bool.not_eq_true'] at hk2
+      rw [h2, hk2.1.1.1] at hp1; cases hp1
+  · -- names of the sub-documents pairwise distinct
+    rw [List.map_map]
+    apply nodup_map_of_nodup_map _ id _ (by simpa using kidsOf_nodup keys P)
+    intro Q1 h1 Q2 h2 hab
+    obtain ⟨_, c1, hc1, e1, _⟩ := allPairs_spec keys (P, Q1) ((mem_kidsOf keys P Q1).mp h1)
+    obtain ⟨_, c2, hc2, e2, _⟩ := allPairs_spec keys (P, Q2) ((mem_kidsOf keys P Q2).mp h2)
+    simp only at e1 e2
+    simp only [Function.comp] at hab
+    rw [e1] at hab
+    rw [e2] at hab
+    rw [kidName_built P c1 hP hc1 _ (hg _), kidName_built P c2 hP hc2 _ (hg _)] at hab
+    simp only [id]
+    rw [e1, e2, (isComp_facts c1 hc1).2.2.2.2.1, (isComp_facts c2 hc2).2.2.2.2.1, hab]
+  · intro n hn
+    obtain ⟨_, _, _, h1, h2⟩ := hgiven n hn
+    exact ⟨h1, h2⟩
+  · -- an extra has content None exactly if its name ends in "/"
+    intro x hx
+    simp only [liveExtras, List.mem_filter] at hx
+    obtain ⟨e, he, hk, rfl⟩ := (mem_extrasAt p man keys P x).mp hx.1
+    simp only [toExtra, endsSlash]
+    by_cases hl : ((e.1.drop P.length).getLast? == some 47) = true
+    · simp [hl]
+    · have hm := (mem_entriesAt man keys P e).mp he
+      have hr : needsRead keys e = true := by
+        simp only [needsRead, hm.2, hk, Bool.true_and, Bool.or_eq_true, bne_iff_ne, ne_eq]
+        right
+        simpa using hl
+      have := ctx.hread e hm.1 hr
+      simp only [Bool.not_eq_true] at hl
+      simp [hl]; exact this
+  · intro d hd
+    obtain ⟨c, hc, hin, hfo, hkn⟩ := hkid d hd
+    obtain ⟨_, _, hno, hne, hcc, _⟩ := isComp_facts c hc
+    rw [hkn]
+    refine ⟨hne, hno, by rw [hfo, folderOfPath_append P c hP hc], ?_⟩
+    rw [← hcc]
+    intro n hn hpre
+    rcases List.mem_append.mp hn with hn | hn
+    · have := reserved_not_obj _ n hn
+      rw [startsObj_of_prefix c n hc hpre] at this
+      cases this
+    · obtain ⟨e, he, rfl, _, _⟩ := hgiven n hn
+      have hstop := (chainOf_spec keys e.1).2
+      rw [((mem_entriesAt man keys P e).mp he).2] at hstop
+      have := hstop c (objComp_of_prefix c _ hc hpre)
+      rw [List.contains_iff_mem.mpr hin] at this
+      cases this
+
+
+theorem buildDoc_folder (p : Package) (man : List (Str × Str)) (keys : List Str) (f : Nat) (P : Str) :
+    (buildDoc p man keys f P).folder = folderOfPath P := by
+  cases f <;> rfl
+
+theorem nodeOK_nokids (top : Bool) (pics : List Pic) (ex : List Extra) (fo : Str) (kids : List Doc)
+    (h : nodeOK top pics ex fo kids = true) : nodeOK top pics ex fo [] = true := by
+  simp only [nodeOK, Bool.and_eq_true, decide_eq_true_eq, List.all_eq_true] at h ⊢
+  exact ⟨⟨⟨⟨h.1.1.1.1, by simp⟩, h.1.1.2⟩, h.1.2⟩, by simp⟩
+
+theorem treeOKs_map (g : Str → Doc) : ∀ (l : List Str), (∀ Q ∈ l, treeOK false (g Q) = true) → treeOKs (l.map g) = true := by
+  intro l
+  induction l with
+  | nil => intro _; rfl
+  | cons Q l ih =>
     intro h
-    have hc := h c List.mem_cons_self
-    have ih' := ih (fun x hx => h x (List.mem_cons_of_mem _ hx))
-    cases c with
-    | mk id mt hs pics th ex fo kids =>
-      simp only at hc
-      obtain ⟨rfl, rfl⟩ := hc
-      simp only [treeOKs, treeOK, plainHrefsK, plainHrefs, Bool.and_eq_true]
-      exact ⟨⟨by decide, ih'.1⟩, ⟨by decide, ih'.2⟩⟩
+    simp only [List.map_cons, treeOKs, Bool.and_eq_true]
+    exact ⟨h Q List.mem_cons_self, ih (fun x hx => h x (List.mem_cons_of_mem _ hx))⟩
 
-/-- everything `load` establishes, with or without the `NoPictureDirs` hypothesis -/
-theorem load_good (plain : Bool) (p : Package) (d : Doc) (hc : plain = true → NoPictureDirs p = true)
-    (hl : load p = some d) : DocOK d = true ∧ (plain = true → plainHrefs d = true) := by
-  unfold load at hl
-  simp only at hl
-  cases h : loadLoop p ((manifestlist p.manifest).map (·.1)) ⟨[], none, [], []⟩ (manifestlist p.manifest) with
-  | none => simp [h] at hl
-  | some s =>
-    simp only [h, Option.some.injEq] at hl
-    subst hl
-    have hkeys : ∀ e ∈ manifestlist p.manifest, plain = true → noPicDir e.1 = true := by
-      intro e he hpl
-      have := hc hpl
-      simp only [NoPictureDirs, List.all_eq_true, List.mem_map] at this
-      exact this e.1 ⟨e, he, rfl⟩
-    obtain ⟨gP, gK, gX, gN⟩ := loadLoop_good plain p _ (manifestlist p.manifest) _ s h hkeys (manifestlist_nodup _)
-      ⟨by simp, by simp⟩ (by intro c hc; cases hc) (by intro x hx; cases hx) (by simp) (by intro x hx; cases hx)
-    have hk := treeOKs_of_kidsGood _ gK
-    refine ⟨?_, ?_⟩
-    · simp only [DocOK, treeOK, picsOK, liveExtras, Bool.and_eq_true, decide_eq_true_eq, List.all_eq_true]
-      refine ⟨⟨⟨⟨gP.1, fun q hq => (gP.2 q hq).1⟩, hk.1⟩, ?_⟩, ?_⟩
-      · exact decide_eq_true (List.Nodup.sublist (List.Sublist.map _ List.filter_sublist) gN)
-      · intro x hx
-        simp only [List.mem_filter] at hx
-        obtain ⟨h1, h2, h3, h4, h5, h6⟩ := gX x hx.1
-        have hnot : (List.map (fun q : Pic => q.href) s.pics).contains x.filename = false := by
-          cases hcn : (List.map (fun q : Pic => q.href) s.pics).contains x.filename with
-          | false => rfl
-          | true =>
-            exfalso
-            simp only [List.contains_iff_mem, List.mem_map] at hcn
-            obtain ⟨q, hq, hqe⟩ := hcn
-            have := (gP.2 q hq).2.1
-            rw [hqe, h3] at this; cases this
-        have e4 : (x.filename != sSlash) = true := by simpa using h4
-        have e5 : (x.filename != sThumbDir) = true := by simpa using h5
-        simp only [extraOK, h1, h2, hnot, e4, e5, h6, Bool.not_false, Bool.and_self]
-    · intro hpl
-      simp only [plainHrefs, Bool.and_eq_true, List.all_eq_true]
-      exact ⟨fun q hq => (gP.2 q hq).2.2 hpl, hk.2⟩
+/-- the tree `load` builds below any folder is well-formed -/
+theorem buildDoc_ok (p : Package) (man : List (Str × Str)) (keys : List Str) (ctx : LoadCtx p man keys) :
+    ∀ (f : Nat) (P : Str), PathOK P → treeOK (decide (P = [])) (buildDoc p man keys f P) = true := by
+  intro f
+  induction f with
+  | zero =>
+    intro P hP
+    have := nodeOK_at p man keys ctx P hP (buildDoc p man keys 0) (buildDoc_folder p man keys 0)
+    simp only [buildDoc, treeOK, treeOKs, Bool.and_true]
+    exact nodeOK_nokids _ _ _ _ _ this
+  | succ f ih =>
+    intro P hP
+    have := nodeOK_at p man keys ctx P hP (buildDoc p man keys f) (buildDoc_folder p man keys f)
+    simp only [buildDoc, treeOK, Bool.and_eq_true]
+    refine ⟨this, treeOKs_map _ _ ?_⟩
+    intro Q hQ
+    obtain ⟨_, c, hc, e2, _⟩ := allPairs_spec keys (P, Q) ((mem_kidsOf keys P Q).mp hQ)
+    simp only at e2
+    have hne : Q ≠ [] := by
+      rw [e2]; intro he
+      have := (isComp_facts c hc).1
+      cases c with
+      | nil => exact this rfl
+      | cons a b => cases P <;> simp at he
+    have := ih Q (by rw [e2]; exact pathOK_append P c hc)
+    simpa [hne] using this
 
 /-- **C03 (`load` produces well-formed documents — full strength, no hypothesis)**: every document that
-    `load` builds, from ANY package, satisfies `DocOK`: picture hrefs distinct and not generated names,
-    extras distinct, disjoint from every generated name, from the pictures, from "/" and "Thumbnails/",
-    content None exactly for directory names. -/
-theorem load_docOK (p : Package) (d : Doc) (hl : load p = some d) : DocOK d = true :=
-  (load_good false p d (by intro h; cases h) hl).1
+    `load` builds, from ANY package — sub-documents at any depth, with their own pictures and extra
+    files, any numbering, any manifest order — satisfies `DocOK`; so `manifest_nodup` and `names_nodup`
+    hold for whatever is saved from it (`loaded_saves_clean`). -/
+theorem load_docOK (p : Package) (d : Doc) (hl : load p = some d) : DocOK d = true := by
+  unfold load at hl
+  simp only at hl
+  split at hl
+  · rename_i hall
+    have ctx : LoadCtx p (manifestlist p.manifest) ((manifestlist p.manifest).map (·.1)) := by
+      refine ⟨rfl, manifestlist_nodup _, ?_⟩
+      intro e he hr
+      simp only [List.all_eq_true, Bool.or_eq_true, Bool.not_eq_true'] at hall
+      rcases hall e he with h | h
+      · rw [hr] at h; cases h
+      · exact h
+    have hb := buildDoc_ok p _ _ ctx (loadFuel ((manifestlist p.manifest).map (·.1))) [] (Or.inl rfl)
+    generalize buildDoc p (manifestlist p.manifest) ((manifestlist p.manifest).map (·.1))
+      (loadFuel ((manifestlist p.manifest).map (·.1))) [] = b at hl hb
+    cases b with
+    | mk id mt hs pics th ex fo kids =>
+      simp only [Option.some.injEq] at hl
+      subst hl
+      simpa [DocOK, treeOK] using hb
+  · cases hl
 
-/-- **C03 (no member name twice, loaded documents, full strength)** -/
-theorem loaded_names_nodup (p : Package) (d : Doc) (hl : load p = some d) : (names (save d)).Nodup :=
-  names_nodup d (load_docOK p d hl)
+/-- **C03 (no member name and no manifest path twice after load + save, every package)** -/
+theorem loaded_saves_clean (p : Package) (d : Doc) (hl : load p = some d) :
+    (names (save d)).Nodup ∧ (paths (save d)).Nodup :=
+  ⟨names_nodup d (load_docOK p d hl), manifest_nodup d (load_docOK p d hl)⟩
 
-/-- FULL STATEMENT wanted: `∀ p d, load p = some d → (paths (save d)).Nodup ∧ ∀ e ∈ (save d).man, e.isFolder =
-    endsSlash e.path`.  Proved under the one remaining decidable hypothesis `NoPictureDirs p` (see there;
-    without it `plainHrefs` is false — `pictureDir_sample` — although the saved package is still
-    consistent).
-    **C03 (no manifest path twice and folder entries = paths ending in "/", loaded documents)** -/
-theorem loaded_manifest_nodup_partial (p : Package) (d : Doc) (hc : NoPictureDirs p = true) (hl : load p = some d) :
-    (paths (save d)).Nodup ∧ ∀ e ∈ (save d).man, e.isFolder = endsSlash e.path := by
-  have := load_good true p d (fun _ => hc) hl
-  exact ⟨manifest_nodup d this.1 (this.2 rfl), folder_iff_slash d this.1 (this.2 rfl)⟩
+/-- a package with the root entry, "Thumbnails/", a picture, an object folder "Object 7/" listed after one of its
+    files, with a picture, a file, a meta.xml of its own and an object of its own, a file extra and a directory
+    extra: loads, and saves without any path twice -/
+def samplePackage : Package :=
+  ⟨some sOdt,
+    [(sSlash, sOdt), (sContent, sTextXml), (sStyles, sTextXml), (sThumbDir, []), (sThumb, [105]), (sPictures ++ [97], [105]),
+     (objPrefix 7 ++ sContent, sTextXml), (objPrefix 7, sOdt), (objPrefix 7 ++ sPictures ++ [98], [105]),
+     (objPrefix 7 ++ [120], []), (objPrefix 7 ++ sMeta, sTextXml), (objPrefix 7 ++ objPrefix 1, sOdt),
+     (objPrefix 7 ++ objPrefix 1 ++ sContent, sTextXml), (objPrefix 5 ++ [121], []), ([120, 47, 121], []), ([120, 47], [])],
+    [(sContent, [60]), (sStyles, [60]), (sThumb, [5]), (sPictures ++ [97], [1]), (objPrefix 7 ++ sContent, [60]),
+     (objPrefix 7 ++ sPictures ++ [98], [2]), (objPrefix 7 ++ [120], [3]), (objPrefix 7 ++ sMeta, [60]),
+     (objPrefix 7 ++ objPrefix 1 ++ sContent, [60]), (objPrefix 5 ++ [121], [4]), ([120, 47, 121], [2])], []⟩
 
-/-- a package with the root entry, "Thumbnails/", a picture, an object folder, a file extra and a
-    directory extra satisfies the hypothesis, loads, and saves without any path twice -/
 theorem load_sample :
-    let p : Package := ⟨some sOdt,
-      [(sSlash, sOdt), (sContent, sTextXml), (sStyles, sTextXml), (sThumbDir, []), (sThumb, []), (sPictures ++ [97], [105]),
-       (objPrefix 1, sOdt), (objPrefix 1 ++ sContent, sTextXml), ([120, 47, 121], []), ([120, 47], [])],
-      [(sContent, [60]), (sStyles, [60]), (sThumb, [5]), (sPictures ++ [97], [1]), (objPrefix 1 ++ sContent, [60]), ([120, 47, 121], [2])], []⟩
-    NoPictureDirs p = true ∧ (load p).map (fun d => (DocOK d, plainHrefs d, decide (paths (save d)).Nodup)) = some (true, true, true) := by
+    (load samplePackage).map (fun d => (DocOK d, plainHrefs d, decide (paths (save d)).Nodup)) = some (true, true, true)
+    ∧ (load samplePackage).map (fun d => d.children.map (fun c => (c.id, c.folder))) = some [(8, (sSlash ++ objPrefix 7).dropLast)]
+    ∧ (load samplePackage).map (fun d => d.children.map (fun c => c.extras.map (·.filename))) = some [[[120], sMeta]]
+    ∧ (load samplePackage).map (fun d => d.children.map (fun c => c.children.map (·.folder)))
+        = some [[(sSlash ++ objPrefix 7 ++ objPrefix 1).dropLast]]
+    ∧ (load samplePackage).map (fun d => d.extras.map (·.filename)) = some [objPrefix 5 ++ [121], [120, 47, 121], [120, 47]]
+    ∧ (load samplePackage).map (fun d => d.thumbnail.map (·.mediatype)) = some (some [105]) := by
   decide
 
-/-- the residual class: a directory entry below "Pictures/" whose zip member exists becomes a picture
-    whose href ends in "/" (`plainHrefs` false); names and paths are still pairwise distinct -/
+/-- residual class for `folder_iff_slash` only: a directory entry below "Pictures/" whose zip member exists
+    becomes a picture whose href ends in "/" (`plainHrefs` false); names and paths are still pairwise distinct -/
 theorem pictureDir_sample :
     let p : Package := ⟨some sOdt, [(sSlash, sOdt), (sContent, sTextXml), (sPictures ++ [115, 47], [])],
       [(sContent, [60]), (sPictures ++ [115, 47], [])], []⟩
-    NoPictureDirs p = false ∧ (load p).map (fun d => (DocOK d, plainHrefs d, decide (names (save d)).Nodup,
+    (load p).map (fun d => (DocOK d, plainHrefs d, decide (names (save d)).Nodup,
         decide (paths (save d)).Nodup)) = some (true, false, true, true) := by
   decide
+
 
 end OdfModel.Props.C03
